@@ -20,9 +20,14 @@ EXPLANATION = (
     "own circuit); what the application hands to the anonymising endpoint is what enters the circuit (TunnelEndpoint.send passes its "
     "own address/packet to send_data, followed by value through copies, tuples, closures and helpers); data is attributed to an own "
     "circuit only when the sender's full socket address is the first hop's; both handshake sides contribute an ephemeral key "
-    "generated in that very call (no cached ephemerals, hence unrelated session keys per circuit). Steps are recognised by what "
+    "generated in that very call (no cached ephemerals, hence unrelated session keys per circuit); every iteration of the hop loop of "
+    "encrypt_cell / decrypt_cell applies its primitive or raises (no break / continue / return skips a layer); the crypto endpoint wraps the "
+    "community's whole endpoint (self.endpoint) and replaces the community as its listener, so no cell reaches the handlers unauthenticated; "
+    "containers changed through self.<attr> are bound per instance, not once at class level (per-circuit state is not shared). Steps are recognised by what "
     "they compute: callables picked from dispatch tables / conditional expressions, layer plans (generators, returned or locally "
-    "built lists walked by one loop), decisions returned as tags / flags by helpers, guards spelled as any()/loops/de Morgan. "
+    "built lists walked by one loop, elements given as tuples or NamedTuple / dataclass records), functools.partial of the methods, methods named "
+    "by strings for getattr, decisions returned as tags / flags / Enum members / record fields by helpers, guards spelled as any()/loops/de Morgan/"
+    "operator-module functions/membership in chain() or key unions/except KeyError, guards moved to the callers. "
     "Byte equality / ciphertext distinctness / tamper rejection rest on the AEAD (trusted)."
 )
 
@@ -105,6 +110,209 @@ def _literal_elts(fi: FuncInfo | None, it: ast.AST):
     return None
 
 
+_UNSET = object()
+
+
+# ------------------------------------------------------------------------------------ result objects (records)
+def _record_class(ctx: Ctx, m, func: ast.AST):
+    """ClassInfo when `func` names a NamedTuple / dataclass of the repository (a record: its constructor only stores its arguments)."""
+    ci = ctx.repo.resolve_class_expr(m, func)
+    if ci is None:
+        return None
+    if "NamedTuple" in ci.base_names or "typing.NamedTuple" in ci.base_names:
+        return ci
+    for d in ci.node.decorator_list:
+        if chain(d.func if isinstance(d, ast.Call) else d) in ("dataclass", "dataclasses.dataclass"):
+            return None if "__init__" in ci.methods or "__post_init__" in ci.methods else ci
+    return None
+
+
+def _record_fields(ci) -> list[str]:
+    return [k for k, a in ci.annotations.items() if "ClassVar" not in norm(a)]
+
+
+def _record_args(ctx: Ctx, m, e: ast.AST):
+    """(class, {field: expression}) when e is the construction of a record, else None."""
+    e = strip_cast(e)
+    if not isinstance(e, ast.Call) or any(isinstance(a, ast.Starred) for a in e.args) or any(k.arg is None for k in e.keywords):
+        return None
+    ci = _record_class(ctx, m, e.func)
+    if ci is None:
+        return None
+    fields = _record_fields(ci)
+    if len(e.args) > len(fields):
+        return None
+    out = dict(zip(fields, e.args))
+    for k in e.keywords:
+        if k.arg not in fields or k.arg in out:
+            return None
+        out[k.arg] = k.value
+    for f in fields:
+        if f not in out:
+            if f not in ci.attrs:
+                return None
+            out[f] = ci.attrs[f]                # the declared default
+    return ci, out
+
+
+def _is_namedtuple(ci) -> bool:
+    return "NamedTuple" in ci.base_names or "typing.NamedTuple" in ci.base_names
+
+
+def _components(ctx: Ctx, m, e: ast.AST):
+    """Elements of a value that can be unpacked / indexed: a tuple or list display, or the construction of a NamedTuple."""
+    e = strip_cast(e)
+    if isinstance(e, (ast.Tuple, ast.List)) and not any(isinstance(x, ast.Starred) for x in e.elts):
+        return list(e.elts)
+    r = _record_args(ctx, m, e)
+    if r is not None and _is_namedtuple(r[0]):
+        return [r[1][f] for f in _record_fields(r[0])]
+    return None
+
+
+def _project(ctx: Ctx, m, e: ast.AST, sel):
+    """Component `sel` (field name / constant index) of the value e constructs, or None."""
+    if isinstance(sel, str):
+        r = _record_args(ctx, m, e)
+        return r[1].get(sel) if r is not None else None
+    comps = _components(ctx, m, e)
+    if comps is not None and isinstance(sel, int) and not isinstance(sel, bool) and -len(comps) <= sel < len(comps):
+        return comps[sel]
+    return None
+
+
+def _def_value(ctx: Ctx, fi: FuncInfo, v: ast.AST | None, idx):
+    """The expression a definition (local_defs: value, tuple index) binds to the name, or None when it is not a syntactic part of v."""
+    if v is None or idx is None:
+        return v
+    return _project(ctx, fi.module, v, idx) if isinstance(idx, int) else None
+
+
+# ------------------------------------------------------------------------------------ operator / functools spellings
+_CURRENT: list = [None]                # the Ctx of the running check (for helpers that are called without one)
+
+_OPERATOR_FN = {"not_": 1, "truth": 1, "is_": 2, "is_not": 2, "eq": 2, "ne": 2, "lt": 2, "le": 2, "gt": 2, "ge": 2, "contains": 2,
+                "is_none": 1, "is_not_none": 1}
+_CMP = {"is_": ast.Is, "is_not": ast.IsNot, "eq": ast.Eq, "ne": ast.NotEq, "lt": ast.Lt, "le": ast.LtE, "gt": ast.Gt, "ge": ast.GtE}
+
+
+def _shared_value(ctx: Ctx, fi: FuncInfo, e: ast.AST, depth: int = 3):
+    """The expression a read-only shared name denotes: a module / class-level constant, or a field of a record held in one
+    (`_SPEC.method` for `_SPEC = _Spec('encrypt_str', ...)`); None for anything else."""
+    if depth <= 0:
+        return None
+    e = strip_cast(e)
+    v = _shared_const(ctx, fi, e)
+    if v is not None:
+        return v
+    if isinstance(e, ast.Attribute):
+        base = _shared_value(ctx, fi, e.value, depth - 1)
+        if base is not None:
+            part = _project(ctx, fi.module, base, e.attr)
+            if part is not None:
+                return _shared_value(ctx, fi, part, depth - 1) or strip_cast(part)
+    if isinstance(e, ast.Subscript) and isinstance(strip_cast(e.slice), ast.Constant):
+        base = _shared_value(ctx, fi, e.value, depth - 1)
+        k = strip_cast(e.slice).value
+        if isinstance(base, ast.Dict):
+            for dk, dv in zip(base.keys, base.values):
+                if isinstance(dk, ast.Constant) and dk.value == k and type(dk.value) is type(k):
+                    return _shared_value(ctx, fi, dv, depth - 1) or strip_cast(dv)
+        elif base is not None and isinstance(k, int):
+            part = _project(ctx, fi.module, base, k)
+            if part is not None:
+                return _shared_value(ctx, fi, part, depth - 1) or strip_cast(part)
+    return None
+
+
+def _const_str(ctx: Ctx, fi: FuncInfo, e: ast.AST) -> str | None:
+    """The string an expression denotes: a literal, a local bound once to one, a shared constant / record field holding one."""
+    e = strip_cast(e)
+    if isinstance(e, ast.Name) and not is_param(fi, e.id) and _bindings(fi, e.id) == 1:
+        e = resolve(fi, e)
+    if not isinstance(e, ast.Constant):
+        e = _shared_value(ctx, fi, e) or e
+    return e.value if isinstance(e, ast.Constant) and isinstance(e.value, str) else None
+
+
+def _operator_fn(ctx: Ctx, fi: FuncInfo, f: ast.AST, depth: int = 4):
+    """(name of a function of the `operator` module, [leading arguments already bound by functools.partial]) that callee
+    expression f denotes, or None."""
+    if depth <= 0:
+        return None
+    f = strip_cast(f)
+    if isinstance(f, ast.Name):
+        if not is_param(fi, f.id) and _bindings(fi, f.id) == 1 and single_def(fi, f.id) is not None and single_def(fi, f.id)[1] is None:
+            return _operator_fn(ctx, fi, single_def(fi, f.id)[0], depth - 1)
+        if is_param(fi, f.id) or local_defs(fi, f.id):
+            return None
+        imp = fi.module.imports.get(f.id)
+        if imp is not None and imp[0] in ("operator", "_operator") and imp[1] in _OPERATOR_FN:
+            return imp[1], []
+    if isinstance(f, ast.Attribute) and isinstance(f.value, ast.Name) and fi.module.imports.get(f.value.id) == ("operator", None) \
+            and f.attr in _OPERATOR_FN:
+        return f.attr, []
+    if isinstance(f, ast.Call) and chain(f.func) in ("partial", "functools.partial") and f.args and not f.keywords \
+            and not any(isinstance(a, ast.Starred) for a in f.args):
+        inner = _operator_fn(ctx, fi, f.args[0], depth - 1)
+        return None if inner is None else (inner[0], [*inner[1], *f.args[1:]])
+    v = _shared_value(ctx, fi, f)
+    if v is not None and v is not f:
+        return _operator_fn(ctx, fi, v, depth - 1)
+    return None
+
+
+def _operator_equiv(ctx: Ctx | None, fi: FuncInfo | None, e: ast.AST):
+    """The operator expression a call computes when its callee is a function of the `operator` module (possibly with leading
+    arguments bound by functools.partial, possibly held in a local / shared constant / record field): `not_(x)` -> `not x`,
+    `partial(is_, None)(x)` -> `None is x`, `contains(t, k)` -> `k in t`.  None for any other call."""
+    if ctx is None or fi is None or not isinstance(e, ast.Call) or e.keywords or any(isinstance(a, ast.Starred) for a in e.args):
+        return None
+    if isinstance(e.func, ast.Attribute) and chain(e.func.value) == "self":
+        return None
+    r = _operator_fn(ctx, fi, e.func)
+    if r is None:
+        return None
+    name, args = r[0], [*r[1], *e.args]
+    if len(args) != _OPERATOR_FN[name]:
+        return None
+    a = [clone(x) for x in args]
+    if name == "not_":
+        return ast.UnaryOp(op=ast.Not(), operand=a[0])
+    if name == "truth":
+        return a[0]
+    if name in ("is_none", "is_not_none"):
+        return ast.Compare(left=a[0], ops=[ast.Is() if name == "is_none" else ast.IsNot()], comparators=[ast.Constant(value=None)])
+    if name == "contains":
+        return ast.Compare(left=a[1], ops=[ast.In()], comparators=[a[0]])
+    if name in ("is_", "is_not", "eq", "ne") and isinstance(a[0], ast.Constant) and not isinstance(a[1], ast.Constant):
+        a.reverse()                            # symmetric: the constant is written on the right, as a test in the source would
+    return ast.Compare(left=a[0], ops=[_CMP[name]()], comparators=[a[1]])
+
+
+def _method_call(ctx: Ctx, fi: FuncInfo, c: ast.Call, depth: int = 3):
+    """(receiver, method name, positional arguments) of a method call however it is spelled: `r.m(a)`, `getattr(r, 'm')(a)` (the
+    name a literal / shared constant / record field), `methodcaller('m', a)(r)`, or a local bound once to the bound method."""
+    f = strip_cast(c.func)
+    if c.keywords or any(isinstance(a, ast.Starred) for a in c.args) or depth <= 0:
+        return None
+    if isinstance(f, ast.Attribute):
+        return f.value, f.attr, list(c.args)
+    if isinstance(f, ast.Name) and not is_param(fi, f.id) and _bindings(fi, f.id) == 1:
+        d = single_def(fi, f.id)
+        f = strip_cast(d[0]) if d is not None and d[1] is None else f
+        if isinstance(f, ast.Attribute):
+            return f.value, f.attr, list(c.args)
+    if isinstance(f, ast.Call) and not f.keywords and not any(isinstance(a, ast.Starred) for a in f.args):
+        if chain(f.func) == "getattr" and len(f.args) == 2:
+            name = _const_str(ctx, fi, f.args[1])
+            return None if name is None else (f.args[0], name, list(c.args))
+        if chain(f.func) in ("methodcaller", "operator.methodcaller") and f.args and len(c.args) == 1:
+            name = _const_str(ctx, fi, f.args[0])
+            return None if name is None else (c.args[0], name, list(f.args[1:]))
+    return None
+
+
 _BOOL_SHAPES = (ast.Compare, ast.BoolOp, ast.UnaryOp, ast.IfExp)
 
 
@@ -118,6 +326,26 @@ def _derive(fi: FuncInfo | None, e: ast.AST, pol: bool, depth: int = 4) -> list:
         if isinstance(e.op, ast.And) is pol:
             return [x for v in e.values for x in _derive(fi, v, pol, depth)]
         return [(e, pol)]
+    if isinstance(e, ast.Call):
+        eq = _operator_equiv(_CURRENT[0], fi, e)
+        if eq is None and _CURRENT[0] is not None and fi is not None:
+            mc = _method_call(_CURRENT[0], fi, e)
+            if mc is not None and mc[1] == "__contains__" and len(mc[2]) == 1:       # t.__contains__(k), methodcaller('__contains__', k)(t)
+                eq = ast.Compare(left=clone(mc[2][0]), ops=[ast.In()], comparators=[clone(mc[0])])
+        if eq is not None:
+            return _derive(fi, eq, pol, depth)
+        # any(map(f, xs)) / all(map(f, xs))  ==  any(f(x) for x in xs) / all(...)
+        if isinstance(e.func, ast.Name) and e.func.id in ("any", "all") and len(e.args) == 1 and not e.keywords:
+            m_ = strip_cast(e.args[0])
+            if isinstance(m_, ast.Call) and chain(m_.func) == "map" and len(m_.args) == 2 and not m_.keywords and (e.func.id == "all") is pol:
+                elts = _literal_elts(fi, m_.args[1])
+                if elts is not None:
+                    return [x for el in elts for x in _derive(fi, _apply_fn(m_.args[0], el), pol, depth)]
+    if isinstance(e, ast.Compare) and len(e.ops) == 1 and isinstance(e.ops[0], (ast.In, ast.NotIn)):
+        # k in chain(a, b) / k in a.keys() | b.keys() / k in {*a, *b}: false only if k is in none of the parts
+        parts = _union_parts(e.comparators[0])
+        if parts is not None and len(parts) > 1 and (isinstance(e.ops[0], ast.In) is not pol):
+            return [x for p_ in parts for x in _derive(fi, ast.Compare(left=clone(e.left), ops=[ast.In()], comparators=[clone(p_)]), False, depth)]
     if isinstance(e, ast.Call) and isinstance(e.func, ast.Name) and not e.keywords and len(e.args) == 1:
         a = e.args[0]
         if e.func.id == "bool":
@@ -147,24 +375,107 @@ def _derive(fi: FuncInfo | None, e: ast.AST, pol: bool, depth: int = 4) -> list:
     return [(e, pol)]
 
 
+def _apply_fn(f: ast.AST, x: ast.AST) -> ast.AST:
+    """The expression `f(x)` computes when f is a one-parameter lambda (its body with x for the parameter), else the call itself."""
+    f = strip_cast(f)
+    if isinstance(f, ast.Lambda) and len(f.args.args) == 1 and not (f.args.vararg or f.args.kwarg or f.args.kwonlyargs or f.args.posonlyargs):
+        return _subst_name(f.body, f.args.args[0].arg, x)
+    return ast.Call(func=clone(f), args=[clone(x)], keywords=[])
+
+
+def _union_parts(e: ast.AST):
+    """The collections whose members make up collection expression e (chain(a, b), a.keys() | b.keys(), {*a, *b}, set(chain(..)));
+    None when e is not such a union."""
+    e = strip_cast(e)
+    if isinstance(e, ast.Call) and not e.keywords and not any(isinstance(a, ast.Starred) for a in e.args):
+        if chain(e.func) in ("chain", "itertools.chain") and e.args:
+            return [p for a in e.args for p in (_union_parts(a) or [a])]
+        if chain(e.func) in ("set", "frozenset", "list", "tuple") and len(e.args) == 1:
+            return _union_parts(e.args[0])
+        return None
+    if isinstance(e, ast.BinOp) and isinstance(e.op, ast.BitOr):
+        return [*(_union_parts(e.left) or [e.left]), *(_union_parts(e.right) or [e.right])]
+    if isinstance(e, (ast.Set, ast.List, ast.Tuple)) and e.elts and all(isinstance(x, ast.Starred) for x in e.elts):
+        return [p for x in e.elts for p in (_union_parts(x.value) or [x.value])]
+    return None
+
+
 def _fact_truth(f: Fact) -> bool:
     """Truth value of f.atom that the fact records (Fact.pos is relative to the operator: `a != b` true is eq/neg)."""
     return fact_of(f.atom, True).pos == f.pos
 
 
+def _read_call(n: ast.Call) -> ast.AST:
+    """Attribute / item reads spelled as calls, rewritten: getattr(x, 'a') -> x.a, attrgetter('a.b')(x) -> x.a.b, itemgetter(k)(x) -> x[k];
+    any other call is returned as it is."""
+    if n.keywords or any(isinstance(a, ast.Starred) for a in n.args):
+        return n
+    if chain(n.func) == "getattr" and len(n.args) == 2 and isinstance(n.args[1], ast.Constant) and isinstance(n.args[1].value, str) \
+            and n.args[1].value.isidentifier():
+        return ast.Attribute(value=n.args[0], attr=n.args[1].value, ctx=ast.Load())
+    g = n.func
+    if isinstance(g, ast.Call) and len(n.args) == 1 and len(g.args) == 1 and not g.keywords and isinstance(g.args[0], ast.Constant):
+        k = g.args[0].value
+        if chain(g.func) in ("attrgetter", "operator.attrgetter") and isinstance(k, str) and all(p.isidentifier() for p in k.split(".")):
+            out = n.args[0]
+            for p in k.split("."):
+                out = ast.Attribute(value=out, attr=p, ctx=ast.Load())
+            return out
+        if chain(g.func) in ("itemgetter", "operator.itemgetter"):
+            return ast.Subscript(value=n.args[0], slice=g.args[0], ctx=ast.Load())
+    return n
+
+
+def _canon_reads(v: ast.AST) -> ast.AST:
+    """v with the reads spelled as calls (_read_call) rewritten; v itself when there is none (a rewritten copy keeps v's place in
+    the tree, so that it can still be located in the control-flow graph)."""
+    if not any(isinstance(x, ast.Call) and chain(x.func) in ("getattr", "attrgetter()", "operator.attrgetter()") for x in ast.walk(v)):
+        return v
+
+    class _R(ast.NodeTransformer):
+        def visit_Call(self, n: ast.Call):  # noqa: N802
+            self.generic_visit(n)
+            return _read_call(n)
+
+    new = _R().visit(clone(v))
+    new._parent = parent_of(v)  # type: ignore[attr-defined]
+    return new
+
+
+def _unchanged_since(ctx: Ctx, fi: FuncInfo, name: str, def_stmt: ast.AST, at: ast.AST | None) -> bool:
+    """`name` has the same value when `at` runs as it had when def_stmt last ran: it is bound once, or none of its bindings lies on
+    a path from def_stmt to `at` (that does not run def_stmt again)."""
+    if _bindings(fi, name) <= 1:
+        return True
+    if at is None:
+        return False
+    cfg = ctx.cfg(fi)
+    dn, un = cfg.nodes_for(def_stmt), cfg.nodes_for(at)
+    if not dn or not un:
+        return False
+    after_def = cfg.reach([w for n in dn for w, lab in n.succ if lab != "exc"], cut_nodes=dn)
+    for st, _, _ in local_defs(fi, name):
+        for b in cfg.nodes_for(st):
+            if b in dn or (b in after_def and any(u in cfg.reach([w for w, lab in b.succ if lab != "exc"], cut_nodes=dn) for u in un)):
+                return False
+    return True
+
+
 def _alias_def(ctx: Ctx, fi: FuncInfo, name: str, at: ast.AST | None) -> ast.AST | None:
-    """Value of local `name` when it is a pure alias whose only definition dominates `at` and whose operands are bound once."""
+    """Value of local `name` when it is a pure alias whose only definition dominates `at` and whose operands still have the
+    value they had at the definition."""
     d = single_def(fi, name)
     if d is None or d[1] is not None:
         return None
-    v = strip_cast(d[0])
+    v = _canon_reads(strip_cast(d[0]))
     if not _is_pure_alias(v):
         return None
-    if any(_bindings(fi, nm) > 1 for nm in names_in(v)):
+    def_stmt = local_defs(fi, name)[0][0]
+    if any(not _unchanged_since(ctx, fi, nm, def_stmt, at) for nm in names_in(v)):
         return None
     if at is not None:
         cfg = ctx.cfg(fi)
-        dn = cfg.nodes_for(local_defs(fi, name)[0][0])
+        dn = cfg.nodes_for(def_stmt)
         un = cfg.nodes_for(at)
         if un and not all(u in dn or cfg.must_complete(u, dn) for u in un):
             return None
@@ -190,6 +501,10 @@ def _expand(ctx: Ctx, fi: FuncInfo, e: ast.AST | None, env: dict | None = None, 
                     return _expand(ctx, fi, v, env, at=v, depth=depth - 1)
             return n
 
+        def visit_Call(self, n: ast.Call):  # noqa: N802
+            self.generic_visit(n)
+            return _read_call(n)
+
     return _T().visit(clone(strip_cast(e)))
 
 
@@ -199,15 +514,18 @@ def _xchain(ctx: Ctx, fi: FuncInfo, e: ast.AST | None, env: dict | None = None, 
 
 def _xfacts(ctx: Ctx, fi: FuncInfo, site, env: dict | None = None) -> list[Fact]:
     """Dominating facts at site, operands expanded (aliases / helper parameters)."""
-    return _xfacts_of(ctx, fi, facts_at(ctx.cfg(fi), site), env, site=site)
+    return _xfacts_of(ctx, fi, facts_at(ctx.cfg(fi), site), env, site=site, at=site if isinstance(site, ast.AST) else None)
 
 
 def _fkey(x: Fact):
     return (x.op, norm(x.left), norm(x.right) if x.right is not None else None, x.pos)
 
 
-def _xfacts_of(ctx: Ctx, fi: FuncInfo, facts, env: dict | None = None, site=None, depth: int = 2) -> list[Fact]:
-    """The given facts of fi and everything they imply (_derive; with a site also _decision_facts), operands expanded."""
+def _xfacts_of(ctx: Ctx, fi: FuncInfo, facts, env: dict | None = None, site=None, depth: int = 2, at: ast.AST | None = None) -> list[Fact]:
+    """The given facts of fi and everything they imply (_derive; with a site also _decision_facts), operands expanded (`at`: the
+    place of fi where the facts are used - aliases are followed as far as their operands keep their value up to there)."""
+    if at is None and isinstance(site, ast.AST):
+        at = site
     out, seen = [], set()
 
     def add(x: Fact) -> None:
@@ -219,41 +537,94 @@ def _xfacts_of(ctx: Ctx, fi: FuncInfo, facts, env: dict | None = None, site=None
     for f in facts:
         truth = _fact_truth(f)
         parts = list(_derive(fi, f.atom, truth))
-        whole = _expand(ctx, fi, f.atom, env)
+        whole = _expand(ctx, fi, f.atom, env, at=at)
         parts += [(a, p) for a, p in _derive(None, whole, truth) if norm(a) != norm(whole)]
         for a, p in parts:
             g = fact_of(a, p)
-            add(Fact(g.op, _expand(ctx, fi, g.left, env), _expand(ctx, fi, g.right, env) if g.right is not None else None, g.pos, f.atom))
+            add(Fact(g.op, _expand(ctx, fi, g.left, env, at=at), _expand(ctx, fi, g.right, env, at=at) if g.right is not None else None, g.pos, f.atom))
             if site is not None and depth > 0:
                 for x in _decision_facts(ctx, fi, env, g, site, depth - 1):
                     add(x)
     return out
 
 
+def _enum_token(e: ast.AST):
+    """('enum', class, member) when e reads a member of a plain Enum of the repository whose members all have different values
+    (two member names then denote two different, truthy objects); else None."""
+    ctx = _CURRENT[0]
+    if ctx is None or not (isinstance(e, ast.Attribute) and isinstance(e.value, ast.Name)):
+        return None
+    for ci in ctx.repo.classes.get(e.value.id, []):
+        if not ci.base_names or not set(ci.base_names) <= {"Enum", "enum.Enum"} or e.attr not in ci.attrs or ci.methods.keys() & {"__bool__", "__eq__", "__len__"}:
+            continue
+        members = {k: v for k, v in ci.attrs.items() if not k.startswith("_")}
+        vals = [norm(v) for v in members.values()]
+        if len(set(vals)) == len(vals) or all(norm(v) == "auto()" for v in members.values()):
+            return ("enum", ci.name, e.attr)
+    return None
+
+
 def _const_or_none(e: ast.AST | None):
-    """(True, value) for a constant expression (a missing `return` value is None), else (False, None)."""
+    """(True, value) for a constant expression (a missing `return` value is None; a member of an Enum is its _enum_token), else
+    (False, None)."""
     if e is None:
         return True, None
     e = strip_cast(e)
     if isinstance(e, ast.Constant):
         return True, e.value
+    tok = _enum_token(e)
+    if tok is not None:
+        return True, tok
     return False, None
 
 
+class _NotNone:
+    """Abstract value of a local: some object that is not None (a display, a constructed record); nothing else is known."""
+
+    def __repr__(self) -> str:
+        return "<not None>"
+
+
+_NOTNONE = _NotNone()
+
+
 def _satisfies(f: Fact, value) -> bool | None:
-    """Does a local holding the constant `value` make fact f (about that local) true?  None: f is not a test of a constant."""
+    """Does a local holding the constant `value` make fact f (about that local) true?  None: f is not a test of a constant (or
+    cannot be decided for the abstract value _NOTNONE)."""
+    known, k = _const_or_none(f.right)
+    if value is _NOTNONE:
+        if f.op == "is" and known and k is None:
+            return f.pos is False
+        return None
     if f.op == "truthy":
         return bool(value) is f.pos
-    known, k = _const_or_none(f.right)
     if f.op == "is" and known and k is None:
         return (value is None) is f.pos
-    if f.op == "eq" and known:
+    if f.op in ("eq", "is") and known and (f.op == "eq" or isinstance(k, tuple)):
         return (value == k and type(value) is type(k)) is f.pos
     if f.op == "in":
         elts = _literal_elts(None, f.right)
-        if elts is not None and all(isinstance(strip_cast(x), ast.Constant) for x in elts):
-            return any(value == strip_cast(x).value for x in elts) is f.pos
+        ks = [_const_or_none(x) for x in elts] if elts is not None else None
+        if ks is not None and all(known_ for known_, _ in ks):
+            return any(value == k_ and type(value) is type(k_) for _, k_ in ks) is f.pos
     return None
+
+
+def _abstract_value(ctx: Ctx, fi: FuncInfo, v: ast.AST | None, idx=None):
+    """What a definition (local_defs: value, tuple index) binds: a constant, _NOTNONE (a display / a constructed record), or
+    _UNSET (unknown)."""
+    v = _def_value(ctx, fi, v, idx)
+    if v is None:
+        return _UNSET
+    v = strip_cast(v)
+    if _const_or_none(v)[0]:
+        return _const_or_none(v)[1]
+    if isinstance(v, (ast.List, ast.Tuple, ast.Set, ast.Dict, ast.JoinedStr, ast.ListComp, ast.SetComp, ast.DictComp, ast.GeneratorExp, ast.Lambda)):
+        return _NOTNONE
+    if isinstance(v, ast.Call) and ((isinstance(v.func, ast.Name) and v.func.id in ("list", "tuple", "set", "dict", "frozenset", "deque"))
+                                    or _record_args(ctx, fi.module, v) is not None):
+        return _NOTNONE
+    return _UNSET
 
 
 def _decision_facts(ctx: Ctx, fi: FuncInfo, env, f: Fact, site, depth: int) -> list[Fact]:
@@ -298,8 +669,9 @@ def _decision_facts(ctx: Ctx, fi: FuncInfo, env, f: Fact, site, depth: int) -> l
                 if idx is not None:
                     return []
                 alts.append((None, [], (h, henv, None)))
-        elif idx is None:
-            alts = [(v, [], None)]
+        else:
+            dv = None if _starred_target(st) else _def_value(ctx, fi, v, idx)
+            alts = None if dv is None else [(dv, [], None)]
         if alts is None:
             return []
         for val, extra, hret in alts:
@@ -310,14 +682,15 @@ def _decision_facts(ctx: Ctx, fi: FuncInfo, env, f: Fact, site, depth: int) -> l
                     continue
             elif f.op == "truthy" and hret is not None:
                 more = _derive(hret[0], val, f.pos)       # `return <test>`: the test has the truthiness the caller observes
-            else:
-                return []
+            elif _abstract_value(ctx, hret[0] if hret is not None else fi, val) is _NOTNONE and _satisfies(f, _NOTNONE) is False:
+                continue                                  # a display / record where the test asks for None
+            # (any other value may pass the test: what holds where it is produced is one of the alternatives)
             if hret is not None:
                 h, henv, r = hret
                 if r is None:
                     sets.append([])
                     continue
-                sets.append(_xfacts(ctx, h, r, henv) + _xfacts_of(ctx, h, [fact_of(a, p) for a, p in more], henv))
+                sets.append(_xfacts(ctx, h, r, henv) + _xfacts_of(ctx, h, [fact_of(a, p) for a, p in more], henv, at=r))
             else:
                 pf = [(a, p) for a, p in _path_facts(ctx, fi, st, others, site_nodes) if not isinstance(a, (ast.For, ast.AsyncFor, ast.While))]
                 sets.append(_xfacts_of(ctx, fi, [fact_of(a, p) for a, p in [*pf, *extra]], env, site=st, depth=depth))
@@ -327,29 +700,65 @@ def _decision_facts(ctx: Ctx, fi: FuncInfo, env, f: Fact, site, depth: int) -> l
     return [z for z in sets[0] if _fkey(z) in keys]
 
 
-def _helper(ctx: Ctx, fi: FuncInfo, call: ast.Call) -> FuncInfo | None:
-    """Target of `self.<m>(...)` when <m> is a plain method of the same class that no rule analyses on its own."""
+def _method_target(ctx: Ctx, fi: FuncInfo, call: ast.Call) -> FuncInfo | None:
+    """The function a call inside fi runs when it is spelled `self.<m>(...)` / `cls.<m>(...)` / `<OwnClass>.<m>(...)` /
+    `type(self).<m>(...)` (a plain, static or class method of fi's class) or `<f>(...)` (a module-level function of a later
+    change); None for everything else (properties, other decorators, foreign receivers)."""
     f = call.func
-    if not (isinstance(f, ast.Attribute) and isinstance(f.value, ast.Name) and f.value.id == "self" and fi.cls is not None):
+    if isinstance(f, ast.Name):
+        t = ctx.repo.resolve_name(fi.module, f.id)
+        if isinstance(t, FuncInfo) and t.cls is None and not t.node.decorator_list and _is_new(t):
+            return t
         return None
-    if f.attr in REVIEWED:
+    if not (isinstance(f, ast.Attribute) and fi.cls is not None):
+        return None
+    r = f.value
+    own = isinstance(r, ast.Name) and (r.id in ("self", "cls") or any(c.name == r.id for c in fi.cls.mro()))
+    own = own or (isinstance(r, ast.Call) and chain(r.func) == "type" and len(r.args) == 1 and chain(r.args[0]) == "self")
+    if not own:
         return None
     t = fi.cls.lookup(f.attr)
-    if not isinstance(t, FuncInfo) or t.node.decorator_list:
+    if not isinstance(t, FuncInfo) or any(chain(d) not in ("staticmethod", "classmethod") for d in t.node.decorator_list):
+        return None
+    if isinstance(r, ast.Name) and r.id not in ("self", "cls") and not t.node.decorator_list:
+        return None                          # `Class.method(x, ...)`: an unbound plain method (the receiver is an argument)
+    return t
+
+
+def _helper(ctx: Ctx, fi: FuncInfo, call: ast.Call) -> FuncInfo | None:
+    """Target of `self.<m>(...)` when <m> is a method of the same class that no rule analyses on its own (or a new module-level
+    function called by name)."""
+    t = _method_target(ctx, fi, call)
+    if t is None or (t.cls is not None and t.name in REVIEWED):
         return None
     return t
+
+
+def _positional_params(t: FuncInfo) -> list[str]:
+    """Names of the positional parameters of helper t that a call binds (without the receiver of a plain / class method)."""
+    a = t.node.args
+    names = [x.arg for x in a.posonlyargs + a.args]
+    static = t.cls is None or any(chain(d) == "staticmethod" for d in t.node.decorator_list)
+    return names if static else names[1:]
 
 
 def _bind(ctx: Ctx, fi: FuncInfo, call: ast.Call, target: FuncInfo, env: dict | None) -> dict:
     a = target.node.args
     if a.vararg or a.kwarg or any(isinstance(x, ast.Starred) for x in call.args) or any(k.arg is None for k in call.keywords):
         raise AnalysisError(f"undecided: helper {target.qualname} is called with packed arguments")
-    params = [x.arg for x in a.posonlyargs + a.args][1:]
+    params = _positional_params(target)
+    if len(call.args) > len(params):
+        raise AnalysisError(f"undecided: helper {target.qualname} is called with more arguments than it declares")
     out = {}
     for p, v in zip(params, call.args):
         out[p] = _expand(ctx, fi, v, env)
     for k in call.keywords:
         out[k.arg] = _expand(ctx, fi, k.value, env)
+    # parameters the call leaves to their (constant) defaults
+    pos = a.posonlyargs + a.args
+    for p, d in [*zip(reversed(pos), reversed(a.defaults)), *zip(a.kwonlyargs, a.kw_defaults)]:
+        if d is not None and p.arg not in out and isinstance(d, ast.Constant):
+            out[p.arg] = clone(d)
     out.update(_canon_locals(ctx, target, out))
     return out
 
@@ -406,6 +815,89 @@ def _canon_locals(ctx: Ctx, t: FuncInfo, env: dict) -> dict:
     return res
 
 
+@dataclass(frozen=True)
+class _Test:
+    """A test of (a part of) a helper's result, taken on one of its out-edges: `if self._judge(cell) is not Verdict.OK`,
+    `ok, why = self._judge(cell)` ... `if not ok`, `if verdict.route is None`."""
+    text: str                         # the test (identity for memoising)
+    lab: bool                         # the out-edge
+    sel: object = None                # field name / tuple index of the part of the result that is tested
+    fact: object = field(default=None, compare=False, hash=False)
+
+    def may_take(self, ctx: Ctx, h: FuncInfo, n) -> bool:
+        """Can the value helper h returns through CFG node n make the test take the edge?  (unknown values can)"""
+        v = n.ast.value if n.kind == "stmt" and isinstance(n.ast, ast.Return) else None
+        for x in _possible_values(ctx, h, v, self.sel):
+            if x is _UNSET:
+                return True
+            known, c = _const_or_none(x)
+            if not known:
+                c = _abstract_value(ctx, h, x)
+                if c is _UNSET:
+                    return True
+            r = _satisfies(self.fact, c)
+            if r is None or r is self.lab:
+                return True
+        return False
+
+
+def _possible_values(ctx: Ctx, h: FuncInfo, v: ast.AST | None, sel=None, depth: int = 3) -> list:
+    """Expressions one of which gives the value (or its part `sel`) of expression v of helper h; _UNSET stands for 'anything'."""
+    if v is None:
+        return [None] if sel is None else [_UNSET]
+    v = strip_cast(v)
+    if depth <= 0:
+        return [_UNSET]
+    if isinstance(v, ast.IfExp):
+        return _possible_values(ctx, h, v.body, sel, depth - 1) + _possible_values(ctx, h, v.orelse, sel, depth - 1)
+    if isinstance(v, ast.Name) and not is_param(h, v.id):
+        defs = local_defs(h, v.id)
+        out = []
+        for st, dv, idx in defs:
+            if isinstance(st, (ast.For, ast.AsyncFor)) and dv is None:
+                # a loop variable over a display: one of the elements (or the matching part of one)
+                elts = _literal_elts(h, st.iter)
+                if elts is None:
+                    return [_UNSET]
+                for el in elts:
+                    if isinstance(st.target, ast.Name):
+                        out += _possible_values(ctx, h, el, sel, depth - 1)
+                    elif isinstance(st.target, (ast.Tuple, ast.List)) and all(isinstance(t, ast.Name) for t in st.target.elts):
+                        part = _project(ctx, h.module, el, [t.id for t in st.target.elts].index(v.id))
+                        out += _possible_values(ctx, h, part, sel, depth - 1) if part is not None else [_UNSET]
+                    else:
+                        return [_UNSET]
+                continue
+            x = None if _starred_target(st) else _def_value(ctx, h, dv, idx)
+            out += _possible_values(ctx, h, x, sel, depth - 1) if x is not None else [_UNSET]
+        return out or [_UNSET]
+    if sel is None:
+        return [v]
+    part = _project(ctx, h.module, v, sel)
+    return [part] if part is not None else [_UNSET]
+
+
+def _cond_subject(ctx: Ctx, fi: FuncInfo, n):
+    """(call, fact of the test being true, selector) when cond node n tests (a part of) the result of a call against constants:
+    the call itself, a local bound once to it (or, by unpacking, to a part of it), or a field / constant index of such a local."""
+    f = fact_of(n.ast, True)
+    if _satisfies(f, 0) is None:
+        return None
+    x, sel = strip_cast(f.left), None
+    if isinstance(x, ast.Attribute) and isinstance(x.value, ast.Name):
+        x, sel = x.value, x.attr
+    elif isinstance(x, ast.Subscript) and isinstance(x.value, ast.Name) and isinstance(x.slice, ast.Constant) and isinstance(x.slice.value, int):
+        x, sel = x.value, x.slice.value
+    if isinstance(x, ast.Name):
+        if is_param(fi, x.id) or _bindings(fi, x.id) != 1:
+            return None
+        d = local_defs(fi, x.id)
+        if len(d) != 1 or d[0][1] is None or _starred_target(d[0][0]) or (d[0][2] is not None and sel is not None):
+            return None
+        x, sel = strip_cast(d[0][1]), d[0][2] if d[0][2] is not None else sel
+    return (x, f, sel) if isinstance(x, ast.Call) else None
+
+
 def _cond_call(ctx: Ctx, fi: FuncInfo, n) -> ast.Call | None:
     """The call whose result a cond node tests: the atom itself, or a local bound once to the call."""
     a = n.ast
@@ -428,12 +920,10 @@ class _Site:
 
 
 def _new_helper(ctx: Ctx, fi: FuncInfo, call: ast.Call) -> FuncInfo | None:
-    """Target of `self.<m>(...)` when <m> is a plain method of the same class that the reviewed tree does not have."""
-    f = call.func
-    if not (isinstance(f, ast.Attribute) and isinstance(f.value, ast.Name) and f.value.id == "self" and fi.cls is not None):
-        return None
-    t = fi.cls.lookup(f.attr)
-    if not isinstance(t, FuncInfo) or t.node.decorator_list or not _is_new(t):
+    """Target of `self.<m>(...)` when <m> is a method of the same class that the reviewed tree does not have (or a new
+    module-level function called by name)."""
+    t = _method_target(ctx, fi, call)
+    if t is None or not _is_new(t):
         return None
     return t
 
@@ -579,7 +1069,7 @@ def _dir_canon(ctx: Ctx, fi: FuncInfo, e: ast.AST | None, env: dict | None, at: 
         return _ifexp_text(ctx, fi, e.test, True, e.body, e.orelse, env, depth - 1)
     if isinstance(e, ast.Call) and isinstance(e.func, ast.Attribute) and e.func.attr == "get" and len(e.args) == 2 and not e.keywords:
         # {K: A}.get(x, B)  ==  A if x == K else B
-        d = _dict_display(fi, e.func.value)
+        d = _dict_display(fi, e.func.value, ctx)
         if d is not None and len(d.keys) == 1:
             return _ifexp_text(ctx, fi, _eq(e.args[0], d.keys[0]), True, d.values[0], e.args[1], env, depth - 1)
     return norm(_expand(ctx, fi, e, env, at=at))
@@ -605,12 +1095,50 @@ def _ifexp_text(ctx: Ctx, fi: FuncInfo, test: ast.AST, pol: bool, a: ast.AST, b:
 OPS = ("encrypt_cell", "decrypt_cell")
 
 
-def _dict_display(fi: FuncInfo | None, e: ast.AST):
+def _shared_const(ctx: Ctx | None, fi: FuncInfo | None, e: ast.AST, depth: int = 3):
+    """The expression a module-level constant (`_TABLE`) or a class-level constant of fi's class (`self._TABLE`, `cls._TABLE`,
+    `Class._TABLE`) is bound to, when e names one and fi has no local of that name; else None."""
+    if ctx is None or fi is None or depth <= 0:
+        return None
+    e = strip_cast(e)
+    v = None
+    if isinstance(e, ast.Name):
+        if is_param(fi, e.id) or local_defs(fi, e.id):
+            return None
+        r = ctx.repo.resolve_name(fi.module, e.id)
+        v = r[2] if isinstance(r, tuple) and r[0] == "const" else None
+    elif isinstance(e, ast.Attribute) and isinstance(e.value, ast.Name) and fi.cls is not None and \
+            (e.value.id in ("self", "cls") or any(c.name == e.value.id for c in fi.cls.mro())):
+        stored = any(isinstance(n, ast.Attribute) and n.attr == e.attr and isinstance(n.ctx, (ast.Store, ast.Del))
+                     for c in fi.cls.mro() for g in c.methods.values() for n in ast.walk(g.node))
+        v = None if stored else fi.cls.lookup_attr(e.attr)
+    if v is None:
+        return None
+    v = strip_cast(v)
+    while isinstance(v, ast.Call) and chain(v.func) in ("MappingProxyType", "types.MappingProxyType", "dict", "tuple", "frozenset") \
+            and len(v.args) == 1 and not v.keywords:
+        v = strip_cast(v.args[0])
+    return _shared_const(ctx, fi, v, depth - 1) or v
+
+
+def _dict_display(fi: FuncInfo | None, e: ast.AST, ctx: Ctx | None = None):
     e = strip_cast(e)
     if isinstance(e, ast.Name) and fi is not None and _bindings(fi, e.id) == 1:
         e = resolve(fi, e)
+    e = _shared_const(ctx, fi, e) or e
     if isinstance(e, ast.Dict) and e.keys and all(k is not None for k in e.keys):
         return e
+    return None
+
+
+def _seq_display(fi: FuncInfo | None, e: ast.AST, ctx: Ctx | None = None):
+    """Elements of a tuple / list display (read directly, through a local bound once, or from a shared constant)."""
+    e = strip_cast(e)
+    if isinstance(e, ast.Name) and fi is not None and _bindings(fi, e.id) == 1:
+        e = resolve(fi, e)
+    e = _shared_const(ctx, fi, e) or e
+    if isinstance(e, (ast.Tuple, ast.List)) and not any(isinstance(x, ast.Starred) for x in e.elts):
+        return list(e.elts)
     return None
 
 
@@ -625,19 +1153,23 @@ def _used(ctx: Ctx) -> set:
     return u
 
 
-def _op_alts(ctx: Ctx, fi: FuncInfo, func: ast.AST, at: ast.AST, depth: int = 3):
-    """[(operation, [(atom, truth)])]: the alternatives when expression `func` (of fi) denotes self.encrypt_cell / self.decrypt_cell
-    picked at run time - a local bound to the method, a conditional expression / if-else between them, a dict display of them
-    indexed or .get()-ed by a key - each with the tests that select it.  None when the expression is anything else."""
-    func = strip_cast(func)
-    if isinstance(func, ast.Attribute) and isinstance(func.value, ast.Name) and func.value.id == "self" and func.attr in OPS:
-        _used(ctx).add(id(func))
-        return [(func.attr, [])]
+def _alts(ctx: Ctx, fi: FuncInfo, e: ast.AST, at: ast.AST, leaf, depth: int = 3):
+    """[(label, [(atom, truth)])]: the alternatives when expression `e` (of fi) denotes one of several values picked at run time,
+    leaf(expression) -> label | None recognising the values: a local bound to one, a conditional expression / if-else between them,
+    a dict display of them indexed or .get()-ed by a key, a tuple display indexed by a test or a constant (held in a local, a
+    module-level or a class-level constant) - each with the tests that select it.  None when the expression is anything else."""
+    e = strip_cast(e)
+    lab = leaf(e)
+    if lab is not None:
+        return [(lab, [])]
     if depth <= 0:
         return None
 
+    def sub(x):
+        return _alts(ctx, fi, x, at, leaf, depth - 1)
+
     def both(a, pol, v1, v2):
-        a1, a2 = _op_alts(ctx, fi, v1, at, depth - 1), _op_alts(ctx, fi, v2, at, depth - 1)
+        a1, a2 = sub(v1), sub(v2)
         if a1 is None or a2 is None:
             return None
         return [(o, [*fs, (a, pol)]) for o, fs in a1] + [(o, [*fs, (a, not pol)]) for o, fs in a2]
@@ -645,52 +1177,114 @@ def _op_alts(ctx: Ctx, fi: FuncInfo, func: ast.AST, at: ast.AST, depth: int = 3)
     def table(d, key, default):
         out = []
         for k, v in zip(d.keys, d.values):
-            a = _op_alts(ctx, fi, v, at, depth - 1)
+            a = sub(v)
             if a is None:
                 return None
             out += [(o, [*fs, (_eq(key, k), True)]) for o, fs in a]
         if default is not None and not (isinstance(default, ast.Constant) and default.value is None):
-            a = _op_alts(ctx, fi, default, at, depth - 1)
+            a = sub(default)
             if a is None:
                 return None
             out += [(o, [*fs, *[(_eq(key, k), False) for k in d.keys]]) for o, fs in a]
         return out
 
-    if isinstance(func, ast.Name):
-        if is_param(fi, func.id):
+    if isinstance(e, ast.Name):
+        if is_param(fi, e.id):
             return None
-        defs = local_defs(fi, func.id)
+        defs = local_defs(fi, e.id)
         if len(defs) == 1 and defs[0][1] is not None and defs[0][2] is None:
-            return _op_alts(ctx, fi, defs[0][1], at, depth - 1)
+            return sub(defs[0][1])
         if len(defs) == 2 and all(v is not None and idx is None for _, v, idx in defs):
-            cv = _conditional_value(ctx, fi, func.id, at)
+            cv = _conditional_value(ctx, fi, e.id, at)
             if cv is not None:
                 return both(*cv)
         return None
-    if isinstance(func, ast.IfExp):
-        return both(func.test, True, func.body, func.orelse)
-    if isinstance(func, ast.Call) and isinstance(func.func, ast.Attribute) and func.func.attr == "get" and 1 <= len(func.args) <= 2 \
-            and not func.keywords:
-        d = _dict_display(fi, func.func.value)
-        return None if d is None else table(d, func.args[0], func.args[1] if len(func.args) == 2 else None)
-    if isinstance(func, ast.Subscript):
-        d = _dict_display(fi, func.value)
-        return None if d is None else table(d, func.slice, None)
+    if isinstance(e, ast.IfExp):
+        return both(e.test, True, e.body, e.orelse)
+    if isinstance(e, ast.Call) and isinstance(e.func, ast.Attribute) and e.func.attr == "get" and 1 <= len(e.args) <= 2 \
+            and not e.keywords:
+        d = _dict_display(fi, e.func.value, ctx)
+        return None if d is None else table(d, e.args[0], e.args[1] if len(e.args) == 2 else None)
+    if isinstance(e, ast.Subscript):
+        d = _dict_display(fi, e.value, ctx)
+        if d is not None:
+            return table(d, e.slice, None)
+        elts = _seq_display(fi, e.value, ctx)
+        ix = strip_cast(e.slice)
+        while isinstance(ix, ast.Call) and chain(ix.func) in ("int", "bool") and len(ix.args) == 1 and not ix.keywords:
+            ix = strip_cast(ix.args[0])
+        if elts is not None and isinstance(ix, ast.Constant) and isinstance(ix.value, int) and -len(elts) <= ix.value < len(elts):
+            return sub(elts[ix.value])
+        if elts is not None and len(elts) == 2 and isinstance(ix, (ast.Compare, ast.BoolOp)) or \
+                (elts is not None and len(elts) == 2 and isinstance(ix, ast.UnaryOp) and isinstance(ix.op, ast.Not)):
+            # (a, b)[test]: a comparison / boolean operation yields False (0) or True (1)
+            if isinstance(ix, ast.BoolOp) and not all(isinstance(strip_cast(v), (ast.Compare, ast.UnaryOp)) for v in ix.values):
+                return None                      # `x and y` yields an operand, not a bool
+            return both(ix, True, elts[1], elts[0])
+        return None
     return None
 
 
+def _op_alts(ctx: Ctx, fi: FuncInfo, func: ast.AST, at: ast.AST, depth: int = 3):
+    """[(operation, [(atom, truth)])]: the alternatives when expression `func` (of fi) denotes self.encrypt_cell / self.decrypt_cell
+    picked at run time (see _alts); the method may also be named by a string: getattr(self, <'encrypt_cell' | 'decrypt_cell'>)."""
+    def method(x):
+        if isinstance(x, ast.Attribute) and isinstance(x.value, ast.Name) and x.value.id == "self" and x.attr in OPS:
+            _used(ctx).add(id(x))
+            return x.attr
+        return None
+
+    def name(x):
+        if isinstance(x, ast.Constant) and x.value in OPS:
+            _used(ctx).add(id(x))
+            return x.value
+        return None
+
+    func = strip_cast(func)
+    if isinstance(func, ast.Call) and chain(func.func) == "getattr" and len(func.args) == 2 and not func.keywords and chain(func.args[0]) == "self":
+        return _alts(ctx, fi, func.args[1], at, name, depth)
+    r = _alts(ctx, fi, func, at, method, depth)
+    if r is None and isinstance(func, ast.Name) and not is_param(fi, func.id) and _bindings(fi, func.id) == 1:
+        d = single_def(fi, func.id)
+        if d is not None and d[1] is None and isinstance(strip_cast(d[0]), ast.Call) and chain(strip_cast(d[0]).func) == "getattr":
+            return _op_alts(ctx, fi, d[0], at, depth - 1) if depth > 0 else None
+    return r
+
+
 def _crypto_alts(ctx: Ctx, fi: FuncInfo, c: ast.Call) -> list:
-    """[(operation, selecting tests)] when call c performs an encrypt_cell / decrypt_cell step of self, [] otherwise."""
+    """[(operation, selecting tests)] when call c performs an encrypt_cell / decrypt_cell step of self, [] otherwise.  The callee may
+    be a functools.partial of the method (written in place or held in a local bound once): its leading arguments then count as
+    the leading arguments of the step (_step_arg)."""
     memo = getattr(ctx, "_c04_alts", None)
     if memo is None:
         memo = ctx._c04_alts = {}  # type: ignore[attr-defined]
+        ctx._c04_pre = {}  # type: ignore[attr-defined]
     if id(c) not in memo:
         f = strip_cast(c.func)
+        g = f
+        if isinstance(g, ast.Name) and not is_param(fi, g.id) and _bindings(fi, g.id) == 1:
+            g = strip_cast(resolve(fi, g))
+        if isinstance(g, ast.Call) and chain(g.func) in ("partial", "functools.partial") and g.args and not g.keywords \
+                and not any(isinstance(a, ast.Starred) for a in g.args):
+            ctx._c04_pre[id(c)] = list(g.args[1:])  # type: ignore[attr-defined]
+            f = strip_cast(g.args[0])
         r = None
         if isinstance(f, (ast.Attribute, ast.Name, ast.IfExp, ast.Subscript, ast.Call)):
             r = _op_alts(ctx, fi, f, c)
         memo[id(c)] = r or []
     return memo[id(c)]
+
+
+def _step_positional(ctx: Ctx, c: ast.Call) -> list:
+    """Positional arguments of a crypto step: those a functools.partial bound in advance, then those of the call."""
+    return [*getattr(ctx, "_c04_pre", {}).get(id(c), []), *c.args]
+
+
+def _step_arg(ctx: Ctx, c: ast.Call, index: int, name: str):
+    pos = _step_positional(ctx, c)
+    if index < len(pos) and not any(isinstance(a, ast.Starred) for a in pos[: index + 1]):
+        return pos[index]
+    return next((k.value for k in c.keywords if k.arg == name), None)
 
 
 def _is_crypto_call(ctx: Ctx, fi: FuncInfo, c: ast.Call) -> bool:
@@ -826,7 +1420,7 @@ def _plan_of_local(ctx: Ctx, fi: FuncInfo, env, name: str, targets, outer) -> _P
             continue
         dom = _xfacts(ctx, fi, st, env)
         for kind, elts, fs in alts[id(st)]:
-            extra = _xfacts_of(ctx, fi, [fact_of(a, p) for a, p in fs], env)
+            extra = _xfacts_of(ctx, fi, [fact_of(a, p) for a, p in fs], env, at=st)
             for i, e in enumerate(elts):
                 elems.append(_Elem(fi, env, e, st, i, [*outer, *dom, *extra]))
             if kind == "list" and not elts:
@@ -888,7 +1482,7 @@ def _plan_of_helper(ctx: Ctx, fi: FuncInfo, call: ast.Call, h: FuncInfo, env, ou
             return None
         raw = [(h, henv, f.atom, _fact_truth(f)) for f in facts_at(hcfg, r)]
         for kind, elts, fs in a:
-            extra = _xfacts_of(ctx, h, [fact_of(x, p) for x, p in fs], henv)
+            extra = _xfacts_of(ctx, h, [fact_of(x, p) for x, p in fs], henv, at=r)
             for i, e in enumerate(elts):
                 elems.append(_Elem(h, henv, e, r, i, [*outer, *dom, *extra]))
             if kind == "list" and not elts:
@@ -944,33 +1538,66 @@ def _loop_of(fi: FuncInfo, c: ast.Call):
     return None
 
 
-def _elem_binding(fi: FuncInfo, loop: ast.For, el: _Elem):
+def _elem_binding(ctx: Ctx, fi: FuncInfo, loop: ast.For, el: _Elem):
     """loop variable -> (function, env, expression) when the plan element is unpacked into the loop target."""
     t, e = loop.target, strip_cast(el.expr)
     if isinstance(e, ast.Name) and _bindings(el.fi, e.id) == 1:
         e = resolve(el.fi, e)
     if isinstance(t, ast.Name):
         return {t.id: (el.fi, el.env, e)}
-    if isinstance(t, (ast.Tuple, ast.List)) and isinstance(e, (ast.Tuple, ast.List)) and len(t.elts) == len(e.elts) \
-            and all(isinstance(x, ast.Name) for x in t.elts) and not any(isinstance(x, ast.Starred) for x in e.elts):
-        return {x.id: (el.fi, el.env, y) for x, y in zip(t.elts, e.elts)}
+    comps = _components(ctx, el.fi.module, e)
+    if isinstance(t, (ast.Tuple, ast.List)) and comps is not None and len(t.elts) == len(comps) and all(isinstance(x, ast.Name) for x in t.elts):
+        return {x.id: (el.fi, el.env, y) for x, y in zip(t.elts, comps)}
     return None
 
 
+def _bound_part(ctx: Ctx, fi: FuncInfo, m: dict | None, e: ast.AST | None, depth: int = 3):
+    """(function, env, expression) of the plan element (or the part of it) that expression e of the loop body denotes: a loop
+    variable, a field / constant index of one (`step.hops`, `step[1]`), or a local of the body bound once to such a read."""
+    if not m or e is None or depth <= 0:
+        return None
+    e = strip_cast(e)
+    if isinstance(e, ast.Name):
+        if e.id in m:
+            return m[e.id]
+        if not is_param(fi, e.id) and _bindings(fi, e.id) == 1:
+            d = single_def(fi, e.id)
+            if d is not None and d[1] is None:
+                return _bound_part(ctx, fi, m, d[0], depth - 1)
+        return None
+    sel = None
+    if isinstance(e, ast.Attribute):
+        sel = e.attr
+    elif isinstance(e, ast.Subscript) and isinstance(e.slice, ast.Constant) and isinstance(e.slice.value, int):
+        sel = e.slice.value
+    if sel is None:
+        return None
+    base = _bound_part(ctx, fi, m, e.value, depth - 1)
+    if base is None:
+        return None
+    g, genv, x = base
+    x = strip_cast(x)
+    if isinstance(x, ast.Name) and _bindings(g, x.id) == 1:
+        x = resolve(g, x)
+    part = _project(ctx, g.module, x, sel)
+    return None if part is None else (g, genv, part)
+
+
 def _loop_callable(ctx: Ctx, fi: FuncInfo, c: ast.Call):
-    """The enclosing loop when the callee of c is a loop variable that takes encrypt_cell / decrypt_cell from a plan."""
+    """The enclosing loop when the callee of c is (a part of) a loop variable that takes encrypt_cell / decrypt_cell from a plan."""
     f = c.func
-    if not isinstance(f, ast.Name):
+    if not isinstance(f, (ast.Name, ast.Attribute, ast.Subscript)) or chain(f) in CRYPTO_OPS:
         return None
     loop = _loop_of(fi, c)
-    if loop is None or f.id not in names_in(loop.target):
+    if loop is None or not (names_in(f) & names_in(loop.target)):
         return None
     plan = _plan_of_iter(ctx, fi, None, loop)
     if plan is None or not plan.elems:
         return None
     for el in plan.elems:
-        m = _elem_binding(fi, loop, el)
-        if m is None or f.id not in m or _op_alts(ctx, m[f.id][0], m[f.id][2], m[f.id][2]) is None:
+        m = _elem_binding(ctx, fi, loop, el)
+        part = _bound_part(ctx, fi, m, f)
+        if part is None or _op_alts(ctx, part[0], part[2], part[2]) is None:
             return None
     return loop
 
@@ -982,18 +1609,18 @@ def _step_sites(ctx: Ctx, fi: FuncInfo, c: ast.Call, env, outer, via) -> list[_S
     loop = _loop_of(fi, c)
     alts = _crypto_alts(ctx, fi, c)
     if loop is None or not (alts or _loop_callable(ctx, fi, c) is not None):
-        return [_Site(fi, c, env, [*here, *_xfacts_of(ctx, fi, [fact_of(a, p) for a, p in fs], env)], list(via), op=op) for op, fs in alts]
+        return [_Site(fi, c, env, [*here, *_xfacts_of(ctx, fi, [fact_of(a, p) for a, p in fs], env, at=c)], list(via), op=op) for op, fs in alts]
     plan = _plan_of_iter(ctx, fi, env, loop)
     if plan is None:
         raise AnalysisError(f"undecided: {fi.qualname} applies crypto steps in a loop over `{norm(loop.iter)}`, whose elements are not understood")
     out = []
     for el in plan.elems:
-        m = _elem_binding(fi, loop, el)
+        m = _elem_binding(ctx, fi, loop, el)
         if m is None:
             raise AnalysisError(f"undecided: element `{norm(el.expr)}` of the layer plan walked in {fi.qualname} is not unpacked into `{norm(loop.target)}`")
         ealts = alts
         if not ealts:
-            g, _, fx = m[c.func.id]
+            g, _, fx = _bound_part(ctx, fi, m, c.func)
             ealts = _op_alts(ctx, g, fx, fx) or []
             ealts = [(op, [(g, a, p) for a, p in fs]) for op, fs in ealts]
         else:
@@ -1001,16 +1628,17 @@ def _step_sites(ctx: Ctx, fi: FuncInfo, c: ast.Call, env, outer, via) -> list[_S
         for op, fs in ealts:
             extra = []
             for g, a, p in fs:
-                extra += _xfacts_of(ctx, g, [fact_of(a, p)], el.env if g is el.fi else env)
+                extra += _xfacts_of(ctx, g, [fact_of(a, p)], el.env if g is el.fi else env, at=c if g is fi else el.node)
             out.append(_Site(fi, c, env, [*here, *el.facts, *extra], list(via), op=op, elem=el, plan=plan, subst=m))
     return out
 
 
 def _site_dir(ctx: Ctx, s: _Site) -> str:
     """Canonical text of the direction argument of a step."""
-    d = arg(s.call, 1, "direction")
-    if s.subst and isinstance(d, ast.Name) and d.id in s.subst:
-        g, genv, e = s.subst[d.id]
+    d = _step_arg(ctx, s.call, 1, "direction")
+    part = _bound_part(ctx, s.fi, s.subst, d)
+    if part is not None:
+        g, genv, e = part
         return _dir_canon(ctx, g, e, genv, e)
     return _dir_canon(ctx, s.fi, d, s.env, s.call)
 
@@ -1024,12 +1652,13 @@ def _takes_sequence(ctx: Ctx, op: str) -> bool:
 def _site_hops(ctx: Ctx, s: _Site) -> str:
     """Canonical text of the hops arguments of a step: `a, b` for single hops, `*x` for a sequence of hops."""
     parts = []
-    hop_args = list(s.call.args[2:]) + [k.value for k in s.call.keywords if k.arg == "hops"]
+    hop_args = _step_positional(ctx, s.call)[2:] + [k.value for k in s.call.keywords if k.arg == "hops"]
     seq = _takes_sequence(ctx, s.op or call_name(s.call) or "encrypt_cell")
     for a in hop_args:
         star = isinstance(a, ast.Starred) or seq              # a sequence parameter is what `*` would have spread
         v = a.value if isinstance(a, ast.Starred) else a
-        if seq and not (s.subst and isinstance(v, ast.Name) and v.id in s.subst):
+        part = _bound_part(ctx, s.fi, s.subst, v)
+        if seq and part is None:
             e = strip_cast(_resolved(s.fi, v) if isinstance(v, ast.Name) and isinstance(_resolved(s.fi, v), (ast.Tuple, ast.List)) else v)
             if isinstance(e, ast.Call) and isinstance(e.func, ast.Name) and e.func.id in ("tuple", "list") and len(e.args) == 1 and not e.keywords:
                 e = strip_cast(e.args[0])
@@ -1038,9 +1667,11 @@ def _site_hops(ctx: Ctx, s: _Site) -> str:
             else:
                 parts.append("*" + norm(_expand(ctx, s.fi, e, s.env, at=s.call)))
             continue
-        if s.subst and isinstance(v, ast.Name) and v.id in s.subst:
-            g, genv, e = s.subst[v.id]
+        if part is not None:
+            g, genv, e = part
             e = strip_cast(e)
+            if star and isinstance(e, ast.Name) and _bindings(g, e.id) == 1 and isinstance(strip_cast(resolve(g, e)), (ast.Tuple, ast.List)):
+                e = strip_cast(resolve(g, e))
             if star and isinstance(e, ast.Call) and isinstance(e.func, ast.Name) and e.func.id in ("tuple", "list") and len(e.args) == 1 \
                     and not e.keywords:
                 e = strip_cast(e.args[0])
@@ -1054,7 +1685,7 @@ def _site_hops(ctx: Ctx, s: _Site) -> str:
 
 
 def _site_cell(ctx: Ctx, s: _Site) -> str | None:
-    a = arg(s.call, 0, "cell")
+    a = _step_arg(ctx, s.call, 0, "cell")
     return None if a is None else norm(_expand(ctx, s.fi, a, s.env, at=s.call))
 
 
@@ -1128,6 +1759,22 @@ class _MustPass:
                     for lab in (True, False):
                         if self._guar(fi, c, t, env, lab, depth - 1):
                             cut_edges.add((n, lab))
+                elif depth > 0:
+                    # a decision (tag / Enum member / flag in a tuple or record) returned by a helper and tested against constants
+                    subj = _cond_subject(ctx, fi, n)
+                    t = _helper(ctx, fi, subj[0]) if subj is not None else None
+                    if t is not None and not any(isinstance(y, (ast.Yield, ast.YieldFrom)) for y in walk_no_nested(t.node)):
+                        for lab in (True, False):
+                            if self._guar(fi, subj[0], t, env, _Test(norm(n.ast), lab, subj[2], subj[1]), depth - 1):
+                                cut_edges.add((n, lab))
+        # `try: <table>[key] ... except KeyError:`: the handler runs only if the key is not in the table, provided the lookup is the
+        # only thing in the try body that can raise a KeyError
+        if self.good_edge is not None:
+            for n in cfg.nodes:
+                if n.kind == "handler" and n not in skip:
+                    absent = _keyerror_means_absent(n.ast)
+                    if absent is not None and self.good_edge(fi, env, cfg, _Atom(absent), True):
+                        cut_normal.add(n)
         # `for t in (A, B, C): if P(t): return`: when the loop is exhausted every iteration has come back to the loop head, so a test
         # edge that every complete iteration takes holds for each element of the display
         if self.good_edge is not None:
@@ -1225,9 +1872,27 @@ class _MustPass:
 
     def holds_for(self, s: _Site) -> bool:
         """holds_at for a site that may live in a helper: in the role function before the helper is entered, or inside the helper."""
-        if not s.via:
-            return self.holds_at(s.fi, s.call)
-        return self.holds_at(s.via[0][0], s.via[0][1]) or self.holds_at(s.fi, s.call, s.env)
+        root = s.via[0][0] if s.via else s.fi
+        if (self.holds_at(s.fi, s.call) if not s.via else self.holds_at(s.via[0][0], s.via[0][1]) or self.holds_at(s.fi, s.call, s.env)):
+            return True
+        # the guard may have moved to the callers: every call of the function is reached only past it (facts about the caller's
+        # argument read as facts about the parameter it is bound to)
+        sites = [(g, c) for _, g, c in _callers(self.ctx, root.name) if g is not None and g is not root and _method_target(self.ctx, g, c) is root]
+        others = [c for _, g, c in _callers(self.ctx, root.name) if not any(c is c2 for _, c2 in sites)]
+        handed = any(isinstance(x, ast.Attribute) and x.attr == root.name and isinstance(x.ctx, ast.Load)
+                     and not (isinstance(parent_of(x), ast.Call) and parent_of(x).func is x)
+                     for m_ in self.ctx.repo.modules.values() for x in ast.walk(m_.tree))
+        if not sites or others or handed or root.name.startswith("__") or root.node.decorator_list:
+            return False
+        for g, c in sites:
+            try:
+                bound = _bind(self.ctx, g, c, root, None)
+            except AnalysisError:
+                return False
+            rename = {v.id: ast.Name(id=p_, ctx=ast.Load()) for p_, v in bound.items() if isinstance(v, ast.Name) and p_ in root.params()}
+            if not self.holds_at(g, c, rename or None):
+                return False
+        return True
 
     def holds_at(self, fi: FuncInfo, site: ast.AST, env=None) -> bool:
         self.undecided = []
@@ -1249,6 +1914,10 @@ class _MustPass:
                 if v is cfg.exit and lab != "exc" and not is_cut(n, v, lab):
                     if pol == "empty":
                         return False
+                    if isinstance(pol, _Test):
+                        if pol.may_take(self.ctx, fi, n):
+                            return False
+                        continue
                     if pol is None or pol in _exit_truth(self.ctx, fi, n, seen):
                         # `return <test>`: the result has truthiness pol only if the test has, which may itself imply the good fact
                         if pol is not None and n.kind == "stmt" and isinstance(n.ast, ast.Return) and n.ast.value is not None \
@@ -1256,6 +1925,29 @@ class _MustPass:
                             continue
                         return False
         return True
+
+
+def _keyerror_means_absent(h: ast.AST):
+    """`<key> not in <table>` (a comparison node) when h is an `except KeyError` handler of a try whose body can raise KeyError only
+    through one lookup `<table>[<key>]`; else None."""
+    from ..cfg import call_may_raise
+    tr = parent_of(h)
+    if not (isinstance(h, ast.ExceptHandler) and isinstance(tr, ast.Try) and h.type is not None and chain(h.type) == "KeyError"):
+        return None
+    if any(g is not h and g.type is not None and chain(g.type) not in ("CryptoException", "ValueError", "TypeError", "AttributeError")
+           for g in tr.handlers[:tr.handlers.index(h)]) or any(g.type is None for g in tr.handlers[:tr.handlers.index(h)]):
+        return None
+    lookups = []
+    for st in tr.body:
+        for n in ast.walk(st):
+            if isinstance(n, ast.Subscript) and isinstance(n.ctx, ast.Load):
+                lookups.append(n)
+            elif isinstance(n, ast.Subscript) or (isinstance(n, ast.Call) and call_may_raise(n)) or \
+                    isinstance(n, (ast.Await, ast.Yield, ast.YieldFrom, ast.Raise, ast.Delete, ast.FunctionDef, ast.AsyncFunctionDef, ast.Lambda, ast.ClassDef)):
+                return None
+    if len(lookups) != 1 or chain(lookups[0].value) is None or isinstance(lookups[0].slice, ast.Slice):
+        return None
+    return ast.Compare(left=clone(lookups[0].slice), ops=[ast.NotIn()], comparators=[clone(lookups[0].value)])
 
 
 def _const_truth(v: ast.AST | None):
@@ -1266,29 +1958,43 @@ def _const_truth(v: ast.AST | None):
     return {True, False}
 
 
-_UNSET = object()
-
-
-def _flags(fi: FuncInfo) -> list[str]:
-    """Locals that only ever hold constants (`ok = True ... ok = False`): their tests can be decided along a path."""
+def _flags(ctx: Ctx, fi: FuncInfo) -> list[str]:
+    """Locals that hold a constant on some path (`ok = True ... ok = False`, `route, why = None, 'refused'`): along a path their
+    value is a constant, _NOTNONE, or unknown (_UNSET: after any other binding), so tests of them can often be decided."""
+    memo = getattr(ctx, "_c04_flags", None)
+    if memo is None:
+        memo = ctx._c04_flags = {}  # type: ignore[attr-defined]
+    if id(fi.node) in memo:
+        return memo[id(fi.node)]
     names = []
     for n in walk_no_nested(fi.node):
-        if isinstance(n, ast.Assign):
-            for t in n.targets:
-                if isinstance(t, ast.Name) and t.id not in names:
-                    names.append(t.id)
+        if isinstance(n, ast.Name) and isinstance(n.ctx, ast.Store) and n.id not in names:
+            names.append(n.id)
     out = []
+    cfg = ctx.cfg(fi)
     for nm in names:
         d = local_defs(fi, nm)
-        if not is_param(fi, nm) and d and all(idx is None and isinstance(v, ast.Constant) and isinstance(st, ast.Assign) for st, v, idx in d):
+        if is_param(fi, nm) or not d:
+            continue
+        # every binding is a statement of its own in the CFG (a walrus inside a test is not) and no `a, *b = ...` hides an index
+        if any(isinstance(st, (ast.If, ast.While)) or not cfg.nodes_for(st) or _starred_target(st) for st, _, _ in d):
+            continue
+        if any(_const_or_none(x)[0] for x in (_def_value(ctx, fi, v, idx) for _, v, idx in d) if x is not None):
             out.append(nm)
+    memo[id(fi.node)] = out
     return out
 
 
-def _stable_key(ctx: Ctx, fi: FuncInfo, env, atom: ast.AST, truth: bool, stored=()):
+def _starred_target(st: ast.AST) -> bool:
+    return isinstance(st, ast.Assign) and any(isinstance(x, ast.Starred) for t in st.targets for x in ast.walk(t))
+
+
+def _stable_key(ctx: Ctx, fi: FuncInfo, env, atom: ast.AST, truth: bool, stored=(), rebound: set | None = None):
     """(key, value) when `atom` having truthiness `truth` fixes the truthiness of a value that cannot change while fi runs: a
     local / parameter bound once or an attribute chain of one that fi does not store to (reads of routing objects and of the cell
-    header are not interleaved with writes: fi is synchronous and the steps in between only replace cell.message)."""
+    header are not interleaved with writes: fi is synchronous and the steps in between only replace cell.message).
+    rebound (a set to fill): names that are bound more than once are accepted too and reported there - the caller forgets the
+    key whenever one of their bindings runs."""
     f = fact_of(atom, truth)
     if f.op == "truthy":
         subj, val, none_test = f.left, f.pos, False
@@ -1297,15 +2003,29 @@ def _stable_key(ctx: Ctx, fi: FuncInfo, env, atom: ast.AST, truth: bool, stored=
     else:
         return None
     subj = strip_cast(subj)
-    if not isinstance(subj, (ast.Name, ast.Attribute)) or not all(_fixed_name(fi, nm) for nm in names_in(subj)):
+    if not isinstance(subj, (ast.Name, ast.Attribute)):
+        return None
+    loose = {nm for nm in names_in(subj) if not _fixed_name(fi, nm)}
+    if loose and (rebound is None or not all(_plain_bindings(ctx, fi, nm) for nm in loose)):
         return None
     x = _expand(ctx, fi, subj, env, at=atom)
     if chain(x) is None or not _is_pure_alias(x) or any(isinstance(n, ast.Attribute) and n.attr in stored for n in ast.walk(x)):
         return None
+    if rebound is not None:
+        more = {nm for nm in names_in(x) if not (env and nm in env) and (is_param(fi, nm) or local_defs(fi, nm)) and not _fixed_name(fi, nm)}
+        if not all(_plain_bindings(ctx, fi, nm) for nm in more):
+            return None
+        rebound |= loose | more
     key = norm(x)
     if none_test and key not in OBJECT_OR_NONE:
         key += " is not None"
     return key, val
+
+
+def _plain_bindings(ctx: Ctx, fi: FuncInfo, name: str) -> bool:
+    """Every binding of the name is a statement (or loop head / handler entry) of its own in the CFG - not a walrus inside a test."""
+    cfg = ctx.cfg(fi)
+    return all(not isinstance(st, (ast.If, ast.While)) and bool(cfg.nodes_for(st)) for st, _, _ in local_defs(fi, name))
 
 
 def _fixed_name(fi: FuncInfo, name: str) -> bool:
@@ -1320,8 +2040,9 @@ def _fixed_name(fi: FuncInfo, name: str) -> bool:
     return not any(isinstance(a, (ast.For, ast.AsyncFor, ast.While)) for a in ancestors(defs[0][0]) if a is not fi.node)
 
 
-def _stable_conds(ctx: Ctx, fi: FuncInfo, env) -> dict:
-    """{cond node: (key, value on its True edge)} for the tests of fi that _stable_key understands."""
+def _stable_conds(ctx: Ctx, fi: FuncInfo, env, resets: dict | None = None) -> dict:
+    """{cond node: (key, value on its True edge)} for the tests of fi that _stable_key understands.  resets (a dict to fill):
+    {node: keys to forget when the node completes} - the bindings of names that are bound more than once."""
     cfg = ctx.cfg(fi)
     if any(isinstance(n, (ast.Await, ast.Yield, ast.YieldFrom)) for n in walk_no_nested(fi.node)):
         return {}
@@ -1329,9 +2050,14 @@ def _stable_conds(ctx: Ctx, fi: FuncInfo, env) -> dict:
     out = {}
     for n in cfg.nodes:
         if n.kind == "cond":
-            kv = _stable_key(ctx, fi, env, n.ast, True, stored)
+            rebound = set() if resets is not None else None
+            kv = _stable_key(ctx, fi, env, n.ast, True, stored, rebound)
             if kv is not None:
                 out[n] = kv
+                for nm in rebound or ():
+                    for st, _, _ in local_defs(fi, nm):
+                        for d in cfg.nodes_for(st):
+                            resets.setdefault(d, set()).add(kv[0])
     return out
 
 
@@ -1342,12 +2068,12 @@ def _flag_reach(ctx: Ctx, fi: FuncInfo, starts=None, cut_edge=None, env=None, ga
     given assignments (which is then remembered); an empty list closes that edge.
     Returns {node: set of states}; `in` works as for a set of nodes.  starts: nodes, or (node, state) pairs."""
     cfg = ctx.cfg(fi)
-    flags = _flags(fi)
-    defnode = {}
+    flags = _flags(ctx, fi)
+    defnode: dict = {}
     for i, nm in enumerate(flags):
-        for st, v, _ in local_defs(fi, nm):
+        for st, v, idx in local_defs(fi, nm):
             for n in cfg.nodes_for(st):
-                defnode[n] = (i, v.value)
+                defnode.setdefault(n, []).append((i, _abstract_value(ctx, fi, v, idx)))
     flagtest = {}                      # cond node -> (flag index, the test as a fact about the flag): `if ok`, `if tag == 'x'`, `if tag is None`
     for n in cfg.nodes:
         if n.kind == "cond" and flags:
@@ -1355,7 +2081,8 @@ def _flag_reach(ctx: Ctx, fi: FuncInfo, starts=None, cut_edge=None, env=None, ga
             x = strip_cast(f.left)
             if isinstance(x, ast.Name) and x.id in flags and _satisfies(f, 0) is not None:
                 flagtest[n] = (flags.index(x.id), f)
-    conds = _stable_conds(ctx, fi, env)
+    resets: dict = {}
+    conds = _stable_conds(ctx, fi, env, resets)
     count: dict = {}
     for k, _ in conds.values():
         count[k] = count.get(k, 0) + 1
@@ -1377,15 +2104,19 @@ def _flag_reach(ctx: Ctx, fi: FuncInfo, starts=None, cut_edge=None, env=None, ga
             if cut_edge is not None and cut_edge(u, v, lab):
                 continue
             st2 = st
-            if u in defnode and lab != "exc":
-                i, val = defnode[u]
-                st2 = st[:i] + (val,) + st[i + 1:]
+            if u in defnode and lab != "exc" and not (u.kind == "loop" and lab is False):
+                for i, val in defnode[u]:
+                    st2 = st2[:i] + (val,) + st2[i + 1:]
+            if u in resets and lab != "exc" and not (u.kind == "loop" and lab is False):
+                for k in resets[u]:
+                    if k in kidx:
+                        st2 = st2[:kidx[k]] + (_UNSET,) + st2[kidx[k] + 1:]
             if marks and u in marks and lab != "exc":      # marks: {node: (key, value)} - completing the node sets the key
                 k, val = marks[u]
                 st2 = st2[:kidx[k]] + (val,) + st2[kidx[k] + 1:]
             if u in flagtest and lab in (True, False):
                 i, f = flagtest[u]
-                if st[i] is not _UNSET and _satisfies(f, st[i]) is not lab:
+                if st[i] is not _UNSET and _satisfies(f, st[i]) is (not lab):
                     continue
             if u in conds and lab in (True, False) and conds[u][0] in kidx:
                 k, on_true = conds[u]
@@ -1410,11 +2141,11 @@ def _exit_truth(ctx: Ctx, fi: FuncInfo, n, seen: dict | None = None) -> set:
     if not (n.kind == "stmt" and isinstance(n.ast, ast.Return)):
         return {False}                       # falls off the end: None
     v = strip_cast(n.ast.value) if n.ast.value is not None else None
-    if isinstance(v, ast.Name) and seen is not None and v.id in _flags(fi):
-        i = _flags(fi).index(v.id)
+    if isinstance(v, ast.Name) and seen is not None and v.id in _flags(ctx, fi):
+        i = _flags(ctx, fi).index(v.id)
         out = set()
         for st in seen.get(n, ()):
-            out |= {True, False} if st[i] is _UNSET else {bool(st[i])}
+            out |= {True, False} if st[i] is _UNSET or st[i] is _NOTNONE else {bool(st[i])}
         return out
     return _const_truth(v)
 
@@ -1426,8 +2157,8 @@ def _is_crypto_node(ctx: Ctx, fi: FuncInfo, env, cfg, n) -> bool:
         memo = ctx._c04_crypto_nodes = {}  # type: ignore[attr-defined]
     key = (id(fi.node), tuple(sorted((k, norm(v)) for k, v in (env or {}).items())))
     if key not in memo:
-        memo[key] = {m for c in calls(fi) if _is_crypto_call(ctx, fi, c) and arg(c, 0, "cell") is not None
-                     and norm(_expand(ctx, fi, arg(c, 0, "cell"), env)) == "cell" for m in cfg.nodes_for(c)}
+        memo[key] = {m for c in calls(fi) if _is_crypto_call(ctx, fi, c) and _step_arg(ctx, c, 0, "cell") is not None
+                     and norm(_expand(ctx, fi, _step_arg(ctx, c, 0, "cell"), env)) == "cell" for m in cfg.nodes_for(c)}
     return n in memo[key]
 
 
@@ -1436,18 +2167,24 @@ def _plaintext_edge(ctx: Ctx, fi: FuncInfo, env, n, lab) -> bool:
     return f.op == "truthy" and f.pos and _xchain(ctx, fi, f.left, env) == "cell.plaintext"
 
 
+def _never_falsy(v: ast.AST) -> bool:
+    """A table value that is neither None nor falsy: a bound method / function reference, a lambda, a truthy constant."""
+    v = strip_cast(v)
+    return isinstance(v, (ast.Attribute, ast.Lambda)) or (isinstance(v, ast.Constant) and bool(v.value))
+
+
 def _missing_dispatch_edge(ctx: Ctx, fi: FuncInfo, env, n, lab) -> bool:
-    """Edge `x is None` / `not x` for `x = {FORWARD: ..., BACKWARD: ...}.get(<a relay direction>)`: a relay direction is FORWARD or
-    BACKWARD (construction sites checked in rule_duality), so the lookup finds an entry."""
+    """Edge `x is None` / `not x` for `x = {FORWARD: ..., BACKWARD: ...}.get(<a relay direction>)`, or `<a relay direction> not in
+    <table / display with FORWARD and BACKWARD>`: a relay direction is FORWARD or BACKWARD (construction sites checked in
+    rule_duality), so the lookup finds an entry."""
     f = fact_of(n.ast, lab)
     if f.op == "in" and not f.pos:
-        # `<a relay direction> not in {FORWARD: ..., BACKWARD: ...}` / `not in (FORWARD, BACKWARD)`
-        disp = _dict_display(fi, f.right)
-        if disp is not None and any(_op_alts(ctx, fi, v, n.ast) is None for v in disp.values):
-            return False
-        elts = list(disp.keys) if disp is not None else _literal_elts(fi, f.right)
+        disp = _dict_display(fi, f.right, ctx)
+        for v in (disp.values if disp is not None else ()):
+            _op_alts(ctx, fi, v, n.ast)          # (references to the two methods in the table are read here: see _refs_understood)
+        elts = list(disp.keys) if disp is not None else (_seq_display(fi, f.right, ctx) or _literal_elts(fi, f.right))
         return elts is not None and {"FORWARD", "BACKWARD"} <= {norm(_expand(ctx, fi, k, env)) for k in elts} \
-            and (_xchain(ctx, fi, f.left, env) or "").endswith(".direction")
+            and (_xchain(ctx, fi, f.left, env, at=n.ast) or "").endswith(".direction")
     none = (f.op == "truthy" and not f.pos) or (f.op == "is" and f.pos and isinstance(f.right, ast.Constant) and f.right.value is None)
     if not none:
         return False
@@ -1455,13 +2192,15 @@ def _missing_dispatch_edge(ctx: Ctx, fi: FuncInfo, env, n, lab) -> bool:
     if isinstance(v, ast.Name):
         d = single_def(fi, v.id) if _bindings(fi, v.id) == 1 else None
         v = strip_cast(d[0]) if d is not None and d[1] is None else None
-    if not (isinstance(v, ast.Call) and isinstance(v.func, ast.Attribute) and v.func.attr == "get" and len(v.args) == 1 and not v.keywords):
+    if not (isinstance(v, ast.Call) and isinstance(v.func, ast.Attribute) and v.func.attr == "get" and not v.keywords and
+            (len(v.args) == 1 or (len(v.args) == 2 and isinstance(v.args[1], ast.Constant) and v.args[1].value is None))):
         return False
-    disp = _dict_display(fi, v.func.value)
-    if disp is None or not _op_alts(ctx, fi, v, n.ast):
+    disp = _dict_display(fi, v.func.value, ctx)
+    if disp is None or not all(_never_falsy(x) for x in disp.values):
         return False
+    _op_alts(ctx, fi, v, n.ast)                  # (references to the two methods in the table are read here: see _refs_understood)
     keys = {norm(_expand(ctx, fi, k, env)) for k in disp.keys}
-    return {"FORWARD", "BACKWARD"} <= keys and (_xchain(ctx, fi, v.args[0], env) or "").endswith(".direction")
+    return {"FORWARD", "BACKWARD"} <= keys and (_xchain(ctx, fi, v.args[0], env, at=n.ast) or "").endswith(".direction")
 
 
 def _not_plaintext_edge(ctx: Ctx, fi: FuncInfo, env, n, lab) -> bool:
@@ -1630,14 +2369,32 @@ def _iter_order(fi: FuncInfo, it: ast.AST, base: str | None, depth: int = 5) -> 
             return flip[_iter_order(fi, it.args[0], base, depth - 1)]
         if it.func.id == "zip" and not any(isinstance(a, ast.Starred) for a in it.args):
             # zip(<counter>, <the hops in some order>): the other iterables only number the layers (the shortest one ends the walk:
-            # they must be unbounded or as long as the hops)
-            mine = [a for a in it.args if base in names_in(a) and chain(strip_cast(a)) != "range" and
-                    not (isinstance(strip_cast(a), ast.Call) and chain(strip_cast(a).func) == "range")]
-            rest = [a for a in it.args if not any(a is m for m in mine)]
-            full = all(isinstance(strip_cast(a), ast.Call) and (chain(strip_cast(a).func) in ("count", "itertools.count") or
-                                                                (chain(strip_cast(a).func) == "range" and len(strip_cast(a).args) <= 2
-                                                                 and f"len({base})" in norm(strip_cast(a).args[-1]))) for a in rest)
-            if len(mine) == 1 and full and all(k.arg == "strict" for k in it.keywords):
+            # they must be unbounded or exactly as long as the hops)
+            def counter(a) -> bool | None:
+                """True: an unbounded / exactly long enough counter; False: a counter that may end the walk early; None: no counter."""
+                a = strip_cast(a)
+                if isinstance(a, ast.Name) and a.id != base and _bindings(fi, a.id) == 1:
+                    a = strip_cast(resolve(fi, a))
+                if not (isinstance(a, ast.Call) and chain(a.func) in ("count", "itertools.count", "range")):
+                    return None
+                if chain(a.func) != "range":
+                    return True
+                if a.keywords or not 1 <= len(a.args) <= 2:
+                    return False
+                start = strip_cast(a.args[0]) if len(a.args) == 2 else ast.Constant(value=0)
+                stop = strip_cast(a.args[-1])
+                if isinstance(stop, ast.Name) and _bindings(fi, stop.id) == 1:
+                    stop = strip_cast(resolve(fi, stop))
+                n_ = f"len({base})"
+                if not (isinstance(start, ast.Constant) and isinstance(start.value, int)):
+                    return False
+                if start.value == 0:
+                    return norm(stop) == n_
+                return isinstance(stop, ast.BinOp) and isinstance(stop.op, ast.Add) and \
+                    {norm(_resolved(fi, stop.left)), norm(_resolved(fi, stop.right))} == {n_, str(start.value)}
+            kinds = [counter(a) for a in it.args]
+            mine = [a for a, k in zip(it.args, kinds) if k is None]
+            if len(mine) == 1 and all(k is not False for k in kinds) and all(k.arg == "strict" for k in it.keywords):
                 return _iter_order(fi, mine[0], base, depth - 1)
         return None
     if isinstance(it, ast.Subscript) and isinstance(it.slice, ast.Slice) and it.slice.lower is None and it.slice.upper is None:
@@ -1665,6 +2422,7 @@ def _contradictory(facts) -> bool:
 
 
 def rule_duality(ctx: Ctx) -> None:
+    _CURRENT[0] = ctx
     repo = ctx.repo
     covered = set()
     units = {fname: _unit(ctx, repo.method("PythonCryptoEndpoint", fname, CR)) for fname in EXPECTED}
@@ -1768,6 +2526,13 @@ def rule_duality(ctx: Ctx) -> None:
                           "place the protocol table does not describe")
                 if inside:
                     ctx._c04_refs = [*getattr(ctx, "_c04_refs", []), (c_fi, node)]  # type: ignore[attr-defined]  (see _refs_understood)
+            elif isinstance(node, ast.Constant) and isinstance(node.value, str) and node.value in OPS:
+                # the method named by a string (for getattr): inside the role functions or in a shared table they read
+                c_fi = repo.function_of(node)
+                ctx.check(c_fi is None or c_fi.node in covered, "direction-duality", c_fi or m.relpath, node, f"'{node.value}' named inside the role functions",
+                          f"the method name '{node.value}' is used outside outgoing_crypto / incoming_crypto / relay_cell: a layer can be added or "
+                          "removed at a place the protocol table does not describe")
+                ctx._c04_refs = [*getattr(ctx, "_c04_refs", []), (c_fi, node)]  # type: ignore[attr-defined]
     # direction values of relay routes are FORWARD/BACKWARD constants at every construction site
     n = 0
     for m, fi, c in _callers(ctx, "RelayRoute"):
@@ -1782,9 +2547,7 @@ def rule_duality(ctx: Ctx) -> None:
     # on_created: backward route points to the requester, forward route to the new hop, both with the hop's session keys
     oc = repo.method("TunnelCommunity", "on_created", TC)
     rr = _sites(ctx, oc, _callee(ctx, "RelayRoute"), _new_helper)
-    pairs = {_xchain(ctx, s.fi, arg(s.call, 2, "direction"), s.env, at=s.call):
-             (norm(_expand(ctx, s.fi, arg(s.call, 0, "circuit_id"), s.env, at=s.call)) if arg(s.call, 0, "circuit_id") is not None else None)
-             for s in rr}
+    pairs = {_xchain(ctx, s.fi, arg(s.call, 2, "direction"), s.env, at=s.call): _request_field(ctx, oc, s, arg(s.call, 0, "circuit_id")) for s in rr}
     ctx.check(pairs == {"BACKWARD": "request.from_circuit_id", "FORWARD": "request.to_circuit_id"}, "direction-duality", oc, oc.node,
               "on_created builds BACKWARD route -> from_circuit and FORWARD route -> to_circuit",
               f"relay routes built in on_created have the wrong direction/circuit pairing: {pairs}")
@@ -1811,16 +2574,29 @@ def rule_duality(ctx: Ctx) -> None:
             raise AnalysisError(f"undecided: order in which {name} walks the hops (`{norm(lp.iter)}`)")
         ctx.check(got == order, "direction-duality", fi, lp, f"{name} iterates hops {order}",
                   f"{name} must iterate the hops {'last-to-first (first hop outermost)' if order == 'reversed' else 'first-to-last'}")
-        prims = [c for c in calls(fi) if call_name(c) == prim]
+        mcalls = {id(c): _method_call(ctx, fi, c) for c in calls(fi)}       # however the method call is spelled (getattr, methodcaller, ...)
+        prims = [c for c in calls(fi) if mcalls[id(c)] is not None and mcalls[id(c)][1] == prim]
         ctx.anchor(prims, f"{prim} in {name}")
         loop_vars = (names_in(lp.target) - {lp.target.id} if elem_vars and isinstance(lp.target, ast.Name) else names_in(lp.target)) | elem_vars
+        loop_heads = [n for n in cfg.by_ast.get(id(lp), []) if n.kind == "loop"]
         for c in prims:
             st = enclosing_stmt(c)
-            recv = _expand(ctx, fi, c.func.value, at=c) if isinstance(c.func, ast.Attribute) else None
+            r_, _, margs = mcalls[id(c)]
+            recv = _expand(ctx, fi, r_, at=c)
             rc_ = chain(recv) or ""
+            # the result replaces cell.message: stored directly, or held in a local (bound by this statement only) that is stored
+            # into cell.message on every normal way from the call to the next iteration / the end of the function
+            stored = isinstance(st, ast.Assign) and len(st.targets) == 1 and st.value is c and chain(st.targets[0]) == "cell.message"
+            if not stored and isinstance(st, (ast.Assign, ast.AnnAssign)) and st.value is c:
+                tg = st.targets[0] if isinstance(st, ast.Assign) and len(st.targets) == 1 else getattr(st, "target", None)
+                if isinstance(tg, ast.Name) and _bindings(fi, tg.id) == 1:
+                    puts = [w for w in walk_no_nested(fi.node) if isinstance(w, ast.Assign) and len(w.targets) == 1
+                            and chain(w.targets[0]) == "cell.message" and isinstance(strip_cast(w.value), ast.Name) and strip_cast(w.value).id == tg.id]
+                    pn = [g for w in puts for g in cfg.nodes_for(w)]
+                    stored = bool(pn) and all(cfg.always_followed_by(g, pn, exits=[cfg.exit, *loop_heads]) for g in cfg.nodes_for(st))
             # the receiver is <loop variable>.keys (read directly or once into a local)
-            ok = isinstance(st, ast.Assign) and chain(st.targets[0]) == "cell.message" and norm(arg(c, 0)) == "cell.message" \
-                and norm(arg(c, 1)) == fi.params()[2] and rc_.endswith(".keys") and rc_.count(".") == 1 and rc_.split(".")[0] in loop_vars \
+            ok = stored and len(margs) == 2 and norm(_expand(ctx, fi, margs[0], at=c)) == "cell.message" \
+                and norm(_expand(ctx, fi, margs[1], at=c)) == fi.params()[2] and rc_.endswith(".keys") and rc_.count(".") == 1 and rc_.split(".")[0] in loop_vars \
                 and ancestors_include(c, lp)
             ctx.check(ok, "direction-duality", fi, st, f"{name}: cell.message = hop.keys.{prim}(cell.message, direction)",
                       f"{name} does not replace the message by the {prim} of the message under the given direction")
@@ -1835,10 +2611,15 @@ def rule_duality(ctx: Ctx) -> None:
             if n.kind != "cond":
                 continue
             a = n.ast
-            f = fact_of(a, True)
-            if not (_xchain(ctx, fi, f.left) or "").endswith(".keys"):
+            parts = _derive(fi, a, True)                    # (the test may be spelled through operator.not_ / partial(is_, None) / bool())
+            if len(parts) != 1:
                 continue
-            nokeys_pol = None
+            f = fact_of(*parts[0])
+            if f.op == "is" and isinstance(f.left, ast.Constant) and f.left.value is None and f.right is not None:
+                f = Fact("is", f.right, f.left, f.pos, f.atom)       # `None is x`
+            if not (_xchain(ctx, fi, f.left, at=a) or "").endswith(".keys"):
+                continue
+            nokeys_pol = None                               # the out-edge of the test on which the keys are missing
             if f.op == "truthy":
                 nokeys_pol = not f.pos
             elif f.op == "is" and isinstance(f.right, ast.Constant) and f.right.value is None:
@@ -1850,10 +2631,31 @@ def rule_duality(ctx: Ctx) -> None:
             ok = cfg.exit not in r and not any(x.kind == "loop" for x in r)
             ctx.check(ok, "crypto-before-send", fi, a, f"{name}: the missing-keys branch raises",
                       f"{name}: when a hop has no keys the layer is skipped (continue/return) instead of raising CryptoException")
+        # no layer is skipped: an iteration of the hop loop that does not raise has applied the primitive - it cannot go on to the next
+        # hop, leave the loop (break: all remaining layers skipped) or return before (except for a cell carrying the plaintext flag)
+        pn = {g for c in prims for g in cfg.nodes_for(c)}
+        inside = lambda x: x.ast is not None and (x.ast is lp or ancestors_include(x.ast, lp)) and not (x.kind == "stmt" and x.ast is lp.iter)  # noqa: E731
+        for head_ in loop_heads:
+            body = [v for v, lab in head_.succ if lab is True]
+            r = cfg.reach(body, cut_out_normal=pn,
+                          cut_edge=lambda u, v, lab: (lab == "exc" and not inside(v)) or
+                          (u.kind == "cond" and lab in (True, False) and _plaintext_edge(ctx, fi, None, u, lab)))
+            skipped = sorted({x for x in r if x is head_ or not inside(x)}, key=lambda x: x.id)
+            how = "goes on to the next hop" if head_ in skipped else "leaves the loop / returns"
+            rule = "drop-on-failure" if name == "decrypt_cell" else "crypto-before-send"
+            ctx.check(not skipped, rule, fi, lp, f"{name}: every iteration of the hop loop applies {prim} or raises",
+                      f"{name}: an iteration of the hop loop can end without having applied {prim} ({how}): the layer of that hop "
+                      + ("(and of every later hop) is not removed and not authenticated, yet the cell is accepted as decrypted"
+                         if name == "decrypt_cell" else "is not added, yet the cell is sent as encrypted"))
         # wrong-other primitive absent
         other = "decrypt_str" if prim == "encrypt_str" else "encrypt_str"
-        ctx.check(not [c for c in calls(fi) if call_name(c) == other], "direction-duality", fi, fi.node,
+        ctx.check(not [c for c in calls(fi) if call_name(c) == other or (mcalls[id(c)] is not None and mcalls[id(c)][1] == other)], "direction-duality", fi, fi.node,
                   f"{name} uses only {prim}", f"{name} calls {other}")
+        # a method of the keys picked by a name the analysis cannot read could be either primitive
+        for c in calls(fi):
+            g = strip_cast(c.func)
+            if isinstance(g, ast.Call) and chain(g.func) in ("getattr", "methodcaller", "operator.methodcaller") and mcalls[id(c)] is None:
+                raise AnalysisError(f"undecided: which method `{norm(c)[:80]}` calls in {fi.qualname}")
         # every failure of the foreign AEAD call is turned into CryptoException (=> caller drops the cell).  The binary
         # extension documents no exception contract (decrypt_str raises RuntimeError on a tag mismatch, ValueError on short
         # input), so only a catch-all handler contains it.
@@ -1874,6 +2676,35 @@ def rule_duality(ctx: Ctx) -> None:
                                           for s in raises) and cfg_handler_always_raises(ctx, fi, h)
                 ctx.check(ok, "drop-on-failure", fi, h, f"{name}: AEAD failure re-raised as CryptoException",
                           f"{name} swallows an authentication failure of the AEAD layer")
+
+
+def _request_field(ctx: Ctx, root: FuncInfo, s: _Site, e: ast.AST | None) -> str | None:
+    """Text of expression e (an argument at site s, reached from `root`) with the pending extend request - the object popped from
+    the request cache as CreateRequestCache, whatever local / helper parameter holds it - written `request`."""
+    if e is None:
+        return None
+    x = _expand(ctx, s.fi, e, s.env, at=s.call)
+
+    def is_request(v: ast.AST, depth: int = 3) -> bool:
+        v = strip_cast(v)
+        if isinstance(v, ast.Name) and depth > 0:
+            # (a name left in the expanded text is a local of the function that contains the site, or - inside a bound helper
+            # argument - of the function the helper was entered from)
+            for g in ([s.fi] if not s.via else [s.fi, *[h for h, _ in s.via]]):
+                if not is_param(g, v.id) and _bindings(g, v.id) == 1:
+                    d = single_def(g, v.id)
+                    if d is not None and d[1] is None:
+                        return is_request(d[0], depth - 1)
+            return False
+        return isinstance(v, ast.Call) and chain(v.func) == "self.request_cache.pop" and bool(v.args) and chain(v.args[0]) == "CreateRequestCache"
+
+    class _T(ast.NodeTransformer):
+        def visit_Attribute(self, n: ast.Attribute):  # noqa: N802
+            if is_request(n.value):
+                return ast.Attribute(value=ast.Name(id="request", ctx=ast.Load()), attr=n.attr, ctx=ast.Load())
+            return self.generic_visit(n)
+
+    return norm(_T().visit(x))
 
 
 def ancestors_include(node: ast.AST, anc: ast.AST) -> bool:
@@ -1929,6 +2760,7 @@ def _whitelist_flag(ctx: Ctx, fi: FuncInfo, v: ast.AST, at: ast.AST) -> bool:
 
 
 def rule_plaintext(ctx: Ctx) -> None:
+    _CURRENT[0] = ctx
     repo = ctx.repo
     pm = repo.module(PL)
     ncp = pm.constants.get("NO_CRYPTO_PACKETS")
@@ -2045,6 +2877,7 @@ def _cell_to_bin(ctx: Ctx, fi: FuncInfo, env, e: ast.AST | None, producer: str) 
 
 
 def rule_crypto_before_send(ctx: Ctx) -> None:
+    _CURRENT[0] = ctx
     repo = ctx.repo
     sc = repo.method("PythonCryptoEndpoint", "send_cell", CR)
     passed = _MustPass(ctx, good_edge=lambda fi, env, g, n, lab: _result_ok_edge(ctx, fi, env, n, lab, "self.outgoing_crypto"))
@@ -2085,6 +2918,9 @@ def rule_crypto_before_send(ctx: Ctx) -> None:
     # result) leads to endpoint.send
     starts = _failure_starts(ctx, rc, None, 2)
     ctx.anchor(starts, "exceptional exit of a crypto step in relay_cell")
+    for x in _crypto_sites(ctx, rc):
+        for g, c in [(x.fi, x.call), *x.via]:
+            _catches_crypto_exception(c, g.node)             # (undecided when a step runs under an exception-swallowing context manager)
     after_failure = _flag_reach(ctx, rc, starts)
     for s in sends:
         top = s.via[0][1] if s.via else s.call              # the statement of relay_cell that (leads to the helper that) sends
@@ -2127,26 +2963,37 @@ def _failure_starts(ctx: Ctx, fi: FuncInfo, env, depth: int) -> list:
         if t is None or depth <= 0 or t is fi:
             continue
         try:
-            outcomes = _failure_outcomes(ctx, t, _bind(ctx, fi, c, t, env), depth - 1)
+            exits: list = []
+            outcomes = _failure_outcomes(ctx, t, _bind(ctx, fi, c, t, env), depth - 1, exits)
         except AnalysisError:
             if any(_is_crypto_call(ctx, t, x) for x in calls(t)):
                 raise
             continue
         tested = [m for m in cfg.nodes if m.kind == "cond" and _cond_call(ctx, fi, m) is c]
+        # the result is a decision (tag / Enum member / part of a tuple or record) tested against constants: after a failure the
+        # test can only take the edges that a value returned after the failure can take
+        decided = [(m, sj) for m in cfg.nodes if m.kind == "cond" and m not in tested
+                   for sj in [_cond_subject(ctx, fi, m)] if sj is not None and sj[0] is c]
         for n in cfg.nodes_for(c):
-            for o in outcomes:
-                if o == "raise":
-                    leave(n, lambda lab: lab == "exc")
-                elif tested:
-                    for m in tested:
+            if "raise" in outcomes:
+                leave(n, lambda lab: lab == "exc")
+            if not (outcomes - {"raise"}):
+                continue
+            if not tested and not decided:
+                leave(n, lambda lab: lab != "exc")
+            for m in tested:
+                for o in outcomes - {"raise"}:
+                    leave(m, lambda lab, o=o: lab is o)
+            for m, sj in decided:
+                for o in (True, False):
+                    if any(_Test(norm(m.ast), o, sj[2], sj[1]).may_take(ctx, t, x) for x in exits):
                         leave(m, lambda lab, o=o: lab is o)
-                else:
-                    leave(n, lambda lab: lab != "exc")
     return starts
 
 
-def _failure_outcomes(ctx: Ctx, fi: FuncInfo, env, depth: int) -> set:
-    """How helper fi can end after one of its crypto steps failed: 'raise', True / False (truthiness of the result)."""
+def _failure_outcomes(ctx: Ctx, fi: FuncInfo, env, depth: int, exits: list | None = None) -> set:
+    """How helper fi can end after one of its crypto steps failed: 'raise', True / False (truthiness of the result).
+    exits (a list to fill): the CFG nodes through which it then returns."""
     cfg = ctx.cfg(fi)
     starts = _failure_starts(ctx, fi, env, depth)
     if not starts:
@@ -2160,6 +3007,8 @@ def _failure_outcomes(ctx: Ctx, fi: FuncInfo, env, depth: int) -> set:
     for n in r:
         if any(v is cfg.exit and lab != "exc" for v, lab in n.succ):
             out |= _exit_truth(ctx, fi, n, r)
+            if exits is not None:
+                exits.append(n)
     return out
 
 
@@ -2168,6 +3017,10 @@ def _catches_crypto_exception(node: ast.AST, within: ast.AST) -> bool:
     from ..cfg import _catches_all
     prev = node
     for a in ancestors(node):
+        if isinstance(a, (ast.With, ast.AsyncWith)) and any(isinstance(i.context_expr, ast.Call) and chain(i.context_expr.func) in ("suppress", "contextlib.suppress")
+                                                            for i in a.items):
+            # the control-flow graph does not model a context manager that swallows exceptions: no verdict about what runs afterwards
+            raise AnalysisError(f"undecided: a crypto step runs under `with {norm(a.items[0].context_expr)}`: where control continues after a failure is not modelled")
         if isinstance(a, ast.Try) and any(prev is b for b in a.body) and \
                 any(_catches_all(h) or "CryptoException" in [chain(t) for t in (h.type.elts if isinstance(h.type, ast.Tuple) else [h.type])]
                     for h in a.handlers):
@@ -2210,6 +3063,7 @@ def cfg_handler_never_falls_through(ctx: Ctx, fi: FuncInfo, h: ast.ExceptHandler
 
 
 def rule_drop_on_failure(ctx: Ctx) -> None:
+    _CURRENT[0] = ctx
     repo = ctx.repo
     pc = repo.method("PythonCryptoEndpoint", "process_cell", CR)
     accepted = _MustPass(ctx, good_edge=lambda fi, env, g, n, lab: _result_ok_edge(ctx, fi, env, n, lab, "self.incoming_crypto"))
@@ -2296,6 +3150,7 @@ def _not_e2e(ctx: Ctx, facts) -> bool:
 
 def rule_e2e_delivery(ctx: Ctx) -> None:
     """Data of an end-to-end (rendezvous) circuit is opaque payload for BOTH parties: it is never interpreted as IPv8 control traffic."""
+    _CURRENT[0] = ctx
     od = ctx.repo.method("TunnelCommunity", "on_data", TC)
     control = ("self.on_packet_from_circuit", "self.endpoint.notify_listeners")
     sites = _sites(ctx, od, _callee(ctx, *control), _new_helper)
@@ -2353,6 +3208,7 @@ def rule_key_selection(ctx: Ctx) -> None:
     return traffic no longer decrypts.  Necessary condition: every installation of an exit socket is dominated by the fact that
     the id is not in self.circuits.
     """
+    _CURRENT[0] = ctx
     repo = ctx.repo
     n = 0
     for m in repo.modules.values():
@@ -2395,6 +3251,7 @@ def rule_key_selection(ctx: Ctx) -> None:
 
 
 def rule_emitters(ctx: Ctx) -> None:
+    _CURRENT[0] = ctx
     repo = ctx.repo
     allowed_tb = {"PythonCryptoEndpoint.send_cell", "PythonCryptoEndpoint.relay_cell", "PythonCryptoEndpoint.process_cell"}
     n = 0
@@ -2486,6 +3343,37 @@ class _HandOver:
             return ("tuple", tuple(self.aeval(x, env) for x in e.elts))
         return None
 
+    def aiter(self, e, env) -> tuple:
+        """The values the first iterations over expression e bind, as far as they are known: the elements of a display / known tuple,
+        of chain(<known>, ...) up to its first unknown operand (a lazy iterable yields its first operand's elements first)."""
+        e = strip_cast(e)
+        if isinstance(e, ast.Call) and not e.keywords:
+            c = chain(e.func)
+            if c in ("iter", "list", "tuple") and len(e.args) == 1 and not isinstance(e.args[0], ast.Starred):
+                return self.aiter(e.args[0], env)
+            if c in ("chain", "itertools.chain"):
+                out = ()
+                for a in e.args:
+                    if isinstance(a, ast.Starred):
+                        break
+                    k = self.aiter(a, env)
+                    out += k
+                    if not self.exact(a, env):
+                        break
+                return out
+            return ()
+        v = self.aeval(e, env)
+        return tuple(v[1]) if isinstance(v, tuple) and v[0] == "tuple" else ()
+
+    def exact(self, e, env) -> bool:
+        """aiter(e) lists ALL elements of e."""
+        e = strip_cast(e)
+        if isinstance(e, ast.Call) and not e.keywords and chain(e.func) in ("iter", "list", "tuple") and len(e.args) == 1 \
+                and not isinstance(e.args[0], ast.Starred):
+            return self.exact(e.args[0], env)
+        v = self.aeval(e, env)
+        return isinstance(v, tuple) and v[0] == "tuple"
+
     def args(self, call: ast.Call, env) -> list | None:
         out = []
         for a in call.args:
@@ -2540,7 +3428,7 @@ class _HandOver:
         if fi is not None and depth > 0:
             t = _new_helper(self.ctx, fi, call)
             if t is not None:
-                inner = self.bind(t.node, call, env, skip_self=True)
+                inner = self.bind(t.node, call, env, skip_self=len(_positional_params(t)) < len(t.node.args.posonlyargs + t.node.args.args))
                 if inner is None:
                     raise AnalysisError(f"undecided: arguments of helper {t.qualname}")
                 return sorted(self.walk(t.node, t, {"self": None, **inner}, depth - 1))
@@ -2602,13 +3490,27 @@ class _HandOver:
                 for x in walk_no_nested(a):
                     if isinstance(x, ast.NamedExpr):
                         env[x.target.id] = self.aeval(x.value, env)
+                if isinstance(parent_of(a), (ast.For, ast.AsyncFor)) and parent_of(a).iter is a:
+                    env[f"<iter {id(parent_of(a))}>"] = (self.aiter(a, env), 0)       # the iterable of a `for` is evaluated here, once
             for v, lab in node.succ:
                 env2 = env
-                if node.kind == "loop" and lab is True and isinstance(a, (ast.For, ast.AsyncFor)):
+                if node.kind == "loop" and isinstance(a, (ast.For, ast.AsyncFor)) and lab in (True, False):
+                    # the iterable was evaluated when the loop was entered: its known leading elements are remembered (with the
+                    # number of iterations begun so far) under a key of the loop; the loop cannot end before they are used up
+                    key = f"<iter {id(a)}>"
+                    known, i = env.get(key) or (self.aiter(a.iter, env), 0)
                     env2 = dict(env)
-                    for x in ast.walk(a.target):
-                        if isinstance(x, ast.Name):
-                            env2[x.id] = None
+                    if lab is False:
+                        if i < len(known):
+                            continue
+                        env2.pop(key, None)
+                    else:
+                        for x in ast.walk(a.target):
+                            if isinstance(x, ast.Name):
+                                env2[x.id] = None
+                        if i < len(known):
+                            targets(a.target, known[i], env2)
+                        env2[key] = (known, min(i + 1, len(known)))
                 if node.kind == "handler" and isinstance(a, ast.ExceptHandler) and a.name:
                     env2 = {**env, a.name: None}
                 for h, s_ in (effects if lab != "exc" else [(handed, sent)]):
@@ -2625,6 +3527,7 @@ def rule_payload_conservation(ctx: Ctx) -> None:
     re-binds the two names before the hand-over sends an old packet twice and the new one never).  send_data wraps its `data`
     parameter unchanged into the DataPayload it sends.
     """
+    _CURRENT[0] = ctx
     repo = ctx.repo
     te = repo.method("TunnelEndpoint", "send", EP)
     if len(te.params()) != 3:
@@ -2661,6 +3564,7 @@ def rule_own_circuit_sender(ctx: Ctx) -> None:
     reached by plain data messages (re-dispatched by on_packet_from_circuit, or sent to our socket by anybody who knows the prefix),
     which carry no authentication of their own: a weaker test (IP only) lets a party without session keys have foreign data delivered.
     """
+    _CURRENT[0] = ctx
     od = ctx.repo.method("TunnelCommunity", "on_data", TC)
     if "sock_addr" not in od.params():
         raise AnalysisError("anchor-lost: parameter sock_addr of TunnelCommunity.on_data")
@@ -2724,6 +3628,7 @@ def rule_fresh_ephemerals(ctx: Ctx) -> None:
     in that call into the shared secret.  If either is cached on the instance, every circuit the same two parties build derives the
     same session keys (and nonce sequence): a cell recorded on one circuit authenticates on the other.
     """
+    _CURRENT[0] = ctx
     repo = ctx.repo
     gs = repo.method("TunnelCrypto", "generate_diffie_secret", CR)
     rets = ctx.anchor([r for r in walk_no_nested(gs.node) if isinstance(r, ast.Return)], "return of generate_diffie_secret")
@@ -2743,12 +3648,101 @@ def rule_fresh_ephemerals(ctx: Ctx) -> None:
               "circuit authenticates on the other")
 
 
+def rule_single_entry(ctx: Ctx) -> None:
+    """
+    Every cell reaches the community through the crypto endpoint, which removes / authenticates the layers: the PythonCryptoEndpoint is
+    built over the community's own endpoint (`self.endpoint`, ALL of its interfaces), and setup_tunnels takes the community off that
+    endpoint as a direct listener and registers the crypto endpoint instead.  Built over a part of the endpoint (one interface of a
+    dispatcher), the community stays a direct listener on the other interfaces: a raw cell arriving there goes straight to
+    on_cell and its handlers - never decrypted, never authenticated.
+    """
+    _CURRENT[0] = ctx
+    repo = ctx.repo
+    init = repo.method("TunnelCommunity", "__init__", TC)
+    sites = ctx.anchor(_sites(ctx, init, _callee(ctx, "PythonCryptoEndpoint"), _new_helper), "PythonCryptoEndpoint(...) in TunnelCommunity.__init__")
+    known = {id(s.call) for s in sites}
+    for s in sites:
+        a = arg(s.call, 0, "endpoint")
+        got = _xchain(ctx, s.fi, a, s.env, at=s.call) if a is not None else None
+        ctx.check(got == "self.endpoint", "single-entry", s.fi, s.call, "the crypto endpoint wraps the community's own endpoint (self.endpoint)",
+                  f"TunnelCommunity builds its PythonCryptoEndpoint over `{norm(a) if a is not None else None}` instead of its own endpoint "
+                  "`self.endpoint`: setup_tunnels() then replaces the community as listener only there, the community stays a direct "
+                  "listener on every other interface of self.endpoint, and a cell arriving on one of those is handled without being "
+                  "decrypted or authenticated (injection without the session keys)")
+    for m, fi, c in _callers(ctx, "PythonCryptoEndpoint"):
+        if fi is not None and id(c) not in known and isinstance(c.func, ast.Name):
+            ctx.check(False, "single-entry", fi, c, "PythonCryptoEndpoint constructed in TunnelCommunity.__init__ only",
+                      "a PythonCryptoEndpoint is constructed outside TunnelCommunity.__init__: which endpoint it guards is not checked")
+    st = repo.method("PythonCryptoEndpoint", "setup_tunnels", CR)
+    comm = st.params()[1] if len(st.params()) > 1 else None
+    removed = [s for s in _sites(ctx, st, _callee(ctx, "self.endpoint.remove_listener"), _helper)
+               if s.call.args and norm(_expand(ctx, s.fi, s.call.args[0], s.env, at=s.call)) == comm]
+    added = [s for s in _sites(ctx, st, _callee(ctx, "self.endpoint.add_prefix_listener", "self.endpoint.add_listener"), _helper)
+             if s.call.args and norm(_expand(ctx, s.fi, s.call.args[0], s.env, at=s.call)) == "self"]
+    ctx.check(bool(removed) and bool(added), "single-entry", st, st.node,
+              "setup_tunnels replaces the community by the crypto endpoint as listener of the wrapped endpoint",
+              "setup_tunnels no longer takes the community off the wrapped endpoint / no longer registers the crypto endpoint on it: "
+              "cells reach the community without passing the crypto endpoint")
+
+
+_MUTABLE_CTORS = {"list", "dict", "set", "deque", "collections.deque", "defaultdict", "collections.defaultdict", "OrderedDict",
+                  "collections.OrderedDict", "bytearray", "Counter", "collections.Counter"}
+_MUTATORS = {"append", "appendleft", "extend", "extendleft", "insert", "add", "update", "setdefault", "pop", "popleft", "popitem", "remove",
+             "discard", "clear", "sort", "reverse", "rotate", "__setitem__", "__delitem__"}
+
+
+def rule_per_circuit_state(ctx: Ctx) -> None:
+    """
+    State that belongs to one circuit / exit socket / relay route lives in the instance.  A container bound at class level and changed
+    through `self.<attr>` (never re-bound per instance) is ONE object shared by every instance of the process: packets queued for one
+    exit socket are flushed through another one's socket, so data leaves under the wrong circuit and the reply is attributed (and
+    tunnelled back) to the wrong origin.
+    """
+    _CURRENT[0] = ctx
+    n = 0
+    for m in ctx.repo.modules.values():
+        if not m.relpath.startswith("ipv8/messaging/anonymization/"):
+            continue
+        for ci in m.classes.values():
+            n += 1
+            family = [ci, *ci.all_subclasses()]
+            for attr, v in ci.attrs.items():
+                v = strip_cast(v)
+                mutable = isinstance(v, (ast.List, ast.Dict, ast.Set, ast.ListComp, ast.DictComp, ast.SetComp)) or \
+                    (isinstance(v, ast.Call) and chain(v.func) in _MUTABLE_CTORS)
+                if not mutable:
+                    continue
+                # re-bound for every instance by a constructor of the class (or, for a subclass, of that subclass)
+                def rebinds(c) -> bool:
+                    return any(isinstance(x, ast.Attribute) and x.attr == attr and isinstance(x.ctx, ast.Store) and chain(x.value) == "self"
+                               for k in c.mro() if "__init__" in k.methods for x in ast.walk(k.methods["__init__"].node))
+                changed = []
+                for c in family:
+                    if rebinds(c):
+                        continue
+                    for g in c.methods.values():
+                        for x in ast.walk(g.node):
+                            if not (isinstance(x, ast.Attribute) and x.attr == attr and chain(x.value) == "self"):
+                                continue
+                            p_ = parent_of(x)
+                            if (isinstance(p_, ast.Attribute) and p_.attr in _MUTATORS and isinstance(parent_of(p_), ast.Call) and parent_of(p_).func is p_) or \
+                                    (isinstance(p_, ast.Subscript) and p_.value is x and isinstance(p_.ctx, (ast.Store, ast.Del))) or \
+                                    (isinstance(p_, ast.AugAssign) and p_.target is x):
+                                changed.append((g, enclosing_stmt(x)))
+                for g, st_ in changed[:1]:
+                    ctx.check(False, "per-circuit-state", g, st_, f"{ci.name}.{attr} is per-instance state",
+                              f"{ci.name}.{attr} is bound once at class level to a mutable container (`{norm(v)[:60]}`) and changed through "
+                              f"`self.{attr}` in {g.qualname} without being re-bound per instance: every {ci.name} of the process shares the one "
+                              "container, so what is stored for one circuit is taken out (sent / delivered / attributed) by another")
+    ctx.floor("per-circuit-state.classes", n, 10)
+
+
 def _refs_understood(ctx: Ctx) -> None:
     """Every mention of self.encrypt_cell / self.decrypt_cell that is not a direct call was consumed by a rule as (part of) a
     callable picked at run time; otherwise the steps it stands for were not compared with the protocol table: no verdict."""
     for c_fi, node in getattr(ctx, "_c04_refs", []):
         if id(node) not in _used(ctx):
-            raise AnalysisError(f"undecided: how {c_fi.qualname} uses the reference `{norm(node)}`")
+            raise AnalysisError(f"undecided: how {c_fi.qualname if c_fi is not None else 'a shared table'} uses the reference `{norm(node)}`")
 
 
 def run(ctx: Ctx) -> None:
@@ -2762,6 +3756,8 @@ def run(ctx: Ctx) -> None:
     rule_payload_conservation(ctx)
     rule_own_circuit_sender(ctx)
     rule_fresh_ephemerals(ctx)
+    rule_single_entry(ctx)
+    rule_per_circuit_state(ctx)
     _refs_understood(ctx)
     ctx.assume("ChaCha20-Poly1305 in ipv8_rust_tunnels.SessionKeys.encrypt_str/decrypt_str: decrypt raises ValueError on any altered byte; ciphertexts under different keys differ (trusted)")
     ctx.assume("a Rust CryptoEndpoint (ipv8_rust_tunnels.Endpoint), when used instead of PythonCryptoEndpoint, is outside the analysed source")
@@ -2842,6 +3838,16 @@ WITNESSES = [
      "new": "        if circuit and origin and sock_addr[0] == circuit.hop.address[0]:"},
     {"name": "responder reuses a long-lived key as ephemeral", "file": CR, "rule": "fresh-ephemeral-keys",
      "old": "        tmp_key = OpenSSLSK.generate(\"curve25519\")", "new": "        tmp_key = self.key"},
+    {"name": "crypto endpoint guards one interface only", "file": TC, "rule": "single-entry",
+     "old": "CryptoEndpoint) else PythonCryptoEndpoint(self.endpoint)", "new": "CryptoEndpoint) else PythonCryptoEndpoint(ipv4_endpoint)"},
+    {"name": "short message ends the layer loop", "file": CR, "rule": "drop-on-failure",
+     "old": "            try:\n                cell.message = hop.keys.decrypt_str(cell.message, direction)",
+     "new": "            if len(cell.message) < 24:\n                break\n\n            try:\n                cell.message = hop.keys.decrypt_str(cell.message, direction)"},
+    {"name": "exit socket queue shared by all exit sockets", "rule": "per-circuit-state", "edits": [
+        {"file": "ipv8/messaging/anonymization/exit_socket.py", "old": "        self.queue: deque[tuple[bytes, Address]] = deque(maxlen=10)\n", "new": ""},
+        {"file": "ipv8/messaging/anonymization/exit_socket.py",
+         "old": "    def __init__(self, circuit_id: int, hop: Hop, overlay: TunnelCommunity) -> None:\n        \"\"\"\n        Create a new exit socket.",
+         "new": "    queue: deque[tuple[bytes, Address]] = deque(maxlen=10)\n\n    def __init__(self, circuit_id: int, hop: Hop, overlay: TunnelCommunity) -> None:\n        \"\"\"\n        Create a new exit socket."}]},
     {"name": "community serialises cell itself", "file": TC, "rule": "cell-emitters",
      "old": "        return self.crypto_endpoint.send_cell(target_addr, cell)",
      "new": "        if payload.msg_id == 6:\n            self.endpoint.send(target_addr, cell.to_bin(self._prefix))\n            return None\n        return self.crypto_endpoint.send_cell(target_addr, cell)"},
